@@ -13,7 +13,18 @@
    (Lower.st_imms) sets, so the IL state is one in which that prologue has run ([imms_done]).  The
    state relation [rel] ties the C operand environment (cenv: old register file, new-value bank,
    immediates) and the registers assigned so far to the IL machine state; READ_REG follows the contract
-   of RzIL.read_reg. *)
+   of RzIL.read_reg.
+   Further leaves and forms: the 17 aliased control registers HEX_REG_ALIAS_<n> ([alias_names]) and the PC alias
+   (read as the packet address as long as it is not written), the explicitly named registers P0 .. P3, R29, R30, R31
+   and their _NEW forms ([expl_names]; premise [xi_ok]: CSem's table of explicit registers agrees with
+   OpTables.explicit_reg_info on these names), memory loads under a cast
+   `(T) mem_load_<s|u><w>(a)` (incl. the size<N><s|u>_t casts), the pure macros sextract64 / extract64 / extract32 /
+   deposit32 / deposit64 / bswap16 / bswap32 / bswap64 (premise [macs_std]: the macro table has the standard entries;
+   proved for the shipped table in FragCheck), and sizeof(e) (premises [subs_ext] / [csub_ext]: neither sub-routine
+   table knows the names of [ext_calls]; CSem gives sizeof no value, so that case is vacuous).
+   The variable types of the model may carry the HYBRID flag (set on a local once ++ was applied to it: [ity],
+   [ty_h]); a value of the fragment mentions no compiler temporary ([goodpv]: pv_tmps = []); [lst_ok] relates the
+   model's variable table to the declared locals up to that flag and up to the temporaries h_tmp<n> ([is_htmp]). *)
 From Coq Require Import ZArith NArith List Bool String Ascii Lia ZifyBool ZifyN.
 From RZ.lib Require Import BV PyHeap.
 From RZ.sem Require Import RzIL CSem.
@@ -295,6 +306,8 @@ Definition imm_ty (l : string) : vtype := ty_int (imm_signed l) 32.
 Definition imm_entry (l : string) : effect := ESetL l (PImm l (imm_signed l) 32).
 (* CSem keeps an assigned immediate in the C local "imm:<letter>" *)
 Definition imm_cname (x : string) : bool := String.eqb (substring 0 4 x) "imm:".
+(* the names of the temporaries the compiler introduces for ++ / -- *)
+Definition is_htmp (x : string) : bool := String.eqb (substring 0 5 x) "h_tmp".
 Lemma imm_cname_imm l : imm_cname ("imm:" +++ l) = true.
 Proof. unfold imm_cname. cbn [append substring]. rewrite substring_0_0. reflexivity. Qed.
 
@@ -460,6 +473,70 @@ Proof.
   apply orb_true_iff in H3. unfold okw. destruct H3 as [H3 | H3]; apply N.eqb_eq in H3; auto.
 Qed.
 
+(* explicitly named registers (P0 .. P3 of fREAD_P0 / fWRITE_P0 ..., R29 R30 R31): registered under their own name *)
+Definition expl_names : list string := ["P0"; "P1"; "P2"; "P3"; "R29"; "R30"; "R31"].
+Definition expl_tname (name : string) (new : bool) : string := name +++ sfx new.
+Definition expl_op (name : string) (new : bool) : regop :=
+  match explicit_reg_info name new with Some (r, _) => r | None => RParam "" end.
+Definition expl_w (name : string) : N := match explicit_reg_info name false with Some (_, w) => w | None => 0%N end.
+Definition expl_all : list (string * bool) := flat_map (fun a => [(a, true); (a, false)]) expl_names.
+Definition is_rexpl (r : regop) (new : bool) : bool := match r with RExpl _ _ n => Bool.eqb n new | _ => false end.
+Lemma expl_check :
+  forallb (fun a => forallb (fun b => implb (String.eqb (expl_tname (fst a) (snd a)) (expl_tname (fst b) (snd b)))
+                                            (String.eqb (fst a) (fst b) && Bool.eqb (snd a) (snd b))) expl_all) expl_all = true /\
+  forallb (fun a => forallb (fun i => negb (String.eqb (expl_tname (fst a) (snd a)) (rname (fst i) (fst (snd i)) (snd (snd i))))) isa_all) expl_all = true /\
+  forallb (fun a => forallb (fun b => negb (String.eqb (expl_tname (fst a) (snd a)) (alias_tname (fst b) (snd b)))) alias_all) expl_all = true /\
+  forallb (fun a => negb (String.eqb (expl_tname (fst a) (snd a)) "pc")) expl_all = true /\
+  forallb (fun a => match explicit_reg_info (fst a) (snd a) with
+                    | Some (r, w) => is_rexpl r (snd a) && N.eqb w (expl_w (fst a)) && (N.eqb w 8 || N.eqb w 32)
+                    | None => false end)%bool expl_all = true.
+Proof. repeat split; vm_compute; reflexivity. Qed.
+Lemma expl_in_all name new : In name expl_names -> In (name, new) expl_all.
+Proof. intros H. unfold expl_all. apply in_flat_map. exists name. split; [exact H|]. destruct new; cbn; auto. Qed.
+Lemma expl_tname_inj name name' new new' : In name expl_names -> In name' expl_names ->
+  expl_tname name new = expl_tname name' new' -> name = name' /\ new = new'.
+Proof.
+  intros H H' He. pose proof (proj1 expl_check) as Hc. rewrite forallb_forall in Hc. specialize (Hc _ (expl_in_all name new H)).
+  rewrite forallb_forall in Hc. specialize (Hc _ (expl_in_all name' new' H')). cbn [fst snd] in Hc.
+  rewrite He, String.eqb_refl in Hc. cbn [implb] in Hc. apply andb_true_iff in Hc. destruct Hc as [H1 H2].
+  apply String.eqb_eq in H1. apply eqb_prop in H2. auto.
+Qed.
+Lemma in_isa_all' cls letters new : any_cls cls -> In letters letter_table -> In (cls, (letters, new)) isa_all.
+Proof. exact (in_isa_all cls letters new). Qed.
+Lemma expl_isa_neq name new cls letters new' : In name expl_names -> any_cls cls -> In letters letter_table ->
+  expl_tname name new <> rname cls letters new'.
+Proof.
+  intros H Hc Hl He. pose proof (proj1 (proj2 expl_check)) as Hk. rewrite forallb_forall in Hk. specialize (Hk _ (expl_in_all name new H)).
+  rewrite forallb_forall in Hk. specialize (Hk _ (in_isa_all cls letters new' Hc Hl)). cbn [fst snd] in Hk.
+  rewrite He, String.eqb_refl in Hk. discriminate Hk.
+Qed.
+Lemma expl_alias_neq name new name' new' : In name expl_names -> In name' alias_names ->
+  expl_tname name new <> alias_tname name' new'.
+Proof.
+  intros H H' He. pose proof (proj1 (proj2 (proj2 expl_check))) as Hk. rewrite forallb_forall in Hk. specialize (Hk _ (expl_in_all name new H)).
+  rewrite forallb_forall in Hk. specialize (Hk _ (alias_in_all name' new' H')). cbn [fst snd] in Hk.
+  rewrite He, String.eqb_refl in Hk. discriminate Hk.
+Qed.
+Lemma expl_not_pcname name new : In name expl_names -> expl_tname name new <> "pc".
+Proof.
+  intros H He. pose proof (proj1 (proj2 (proj2 (proj2 expl_check)))) as Hk. rewrite forallb_forall in Hk. specialize (Hk _ (expl_in_all name new H)).
+  cbn [fst snd] in Hk. rewrite He in Hk. discriminate Hk.
+Qed.
+Lemma expl_facts name new : In name expl_names ->
+  explicit_reg_info name new = Some (expl_op name new, expl_w name) /\ is_rexpl (expl_op name new) new = true /\ okw (expl_w name).
+Proof.
+  intros H. pose proof (proj2 (proj2 (proj2 (proj2 expl_check)))) as Hk. rewrite forallb_forall in Hk. specialize (Hk _ (expl_in_all name new H)).
+  cbn [fst snd] in Hk. unfold expl_op. destruct (explicit_reg_info name new) as [[r w]|]; [|discriminate Hk].
+  apply andb_true_iff in Hk. destruct Hk as [Hk H3]. apply andb_true_iff in Hk. destruct Hk as [H1 H2].
+  apply N.eqb_eq in H2. subst w. split; [reflexivity|]. split; [exact H1|].
+  apply orb_true_iff in H3. destruct H3 as [H3 | H3]; apply N.eqb_eq in H3; rewrite H3; unfold okw; auto.
+Qed.
+(* the C semantics is given the table of the explicit registers *)
+Definition xi_ok (xi : string -> bool -> option (regop * N)) : Prop :=
+  forall name new, In name expl_names -> xi name new = explicit_reg_info name new.
+Lemma xi_ok_std : xi_ok explicit_reg_info.
+Proof. intros name new _. reflexivity. Qed.
+
 (* an entry of the model's register table, as the fragment creates it: for an ISA operand, or for an alias *)
 Definition isa_entry (n : string) (ri : reginfo) : Prop :=
   exists cls letters acc new, reg_cls new cls /\ access_of_letters letters = Some acc /\ n = rname cls letters new /\
@@ -471,25 +548,38 @@ Definition alias_entry (n : string) (ri : reginfo) : Prop :=
 (* the program counter alias, read only: its reads are emitted as the packet address as long as it is not written *)
 Definition pc_entry (n : string) (ri : reginfo) : Prop :=
   n = "pc" /\ r_op ri = pc_op /\ r_ty ri = ty_int false 32 /\ r_pc ri = true /\ r_new ri = false /\ r_acc ri = AUnknown.
-Definition entry_ok (n : string) (ri : reginfo) : Prop := isa_entry n ri \/ alias_entry n ri \/ pc_entry n ri.
+Definition expl_entry (n : string) (ri : reginfo) : Prop :=
+  exists name new, In name expl_names /\ n = expl_tname name new /\ r_op ri = expl_op name new /\
+    r_ty ri = ty_int true (expl_w name) /\ r_pc ri = false /\ r_new ri = new.
+Definition entry_ok (n : string) (ri : reginfo) : Prop := isa_entry n ri \/ alias_entry n ri \/ pc_entry n ri \/ expl_entry n ri.
 (* which kind an entry is, is decided by its name *)
 Lemma entry_isa n ri cls letters new : entry_ok n ri -> any_cls cls -> In letters letter_table -> n = rname cls letters new -> isa_entry n ri.
 Proof.
-  intros [H | [[nm [nw [Hin [Hn _]]]] | [Hn _]]] Hc Hl He; [exact H | exfalso | exfalso].
+  intros [H | [[nm [nw [Hin [Hn _]]]] | [[Hn _] | [nm [nw [Hin [Hn _]]]]]]] Hc Hl He; [exact H | exfalso | exfalso | exfalso].
   - rewrite He in Hn. exact (alias_isa_neq nm nw cls letters new Hin Hc Hl (eq_sym Hn)).
   - rewrite He in Hn. exact (isa_not_pcname cls letters new Hc Hl Hn).
+  - rewrite He in Hn. exact (expl_isa_neq nm nw cls letters new Hin Hc Hl (eq_sym Hn)).
 Qed.
 Lemma entry_alias n ri name new : entry_ok n ri -> In name alias_names -> n = alias_tname name new -> alias_entry n ri.
 Proof.
-  intros [[cls' [l' [acc' [new' [Hc' [Ha' [Hn _]]]]]]] | [H | [Hn _]]] Hin He; [exfalso | exact H | exfalso].
+  intros [[cls' [l' [acc' [new' [Hc' [Ha' [Hn _]]]]]]] | [H | [[Hn _] | [nm [nw [Hin' [Hn _]]]]]]] Hin He; [exfalso | exact H | exfalso | exfalso].
   - rewrite He in Hn. exact (alias_isa_neq name new cls' l' new' Hin (reg_cls_any _ _ Hc') (access_in_table _ _ Ha') Hn).
   - rewrite He in Hn. exact (alias_not_pcname name new Hin Hn).
+  - rewrite He in Hn. exact (expl_alias_neq nm nw name new Hin' Hin (eq_sym Hn)).
 Qed.
 Lemma entry_pc n ri : entry_ok n ri -> n = "pc" -> pc_entry n ri.
 Proof.
-  intros [[cls' [l' [acc' [new' [Hc' [Ha' [Hn _]]]]]]] | [[nm [nw [Hin [Hn _]]]] | H]] He; [exfalso | exfalso | exact H].
+  intros [[cls' [l' [acc' [new' [Hc' [Ha' [Hn _]]]]]]] | [[nm [nw [Hin [Hn _]]]] | [H | [nm [nw [Hin [Hn _]]]]]]] He; [exfalso | exfalso | exact H | exfalso].
   - rewrite He in Hn. exact (isa_not_pcname cls' l' new' (reg_cls_any _ _ Hc') (access_in_table _ _ Ha') (eq_sym Hn)).
   - rewrite He in Hn. exact (alias_not_pcname nm nw Hin (eq_sym Hn)).
+  - rewrite He in Hn. exact (expl_not_pcname nm nw Hin (eq_sym Hn)).
+Qed.
+Lemma entry_expl n ri name new : entry_ok n ri -> In name expl_names -> n = expl_tname name new -> expl_entry n ri.
+Proof.
+  intros [[cls' [l' [acc' [new' [Hc' [Ha' [Hn _]]]]]]] | [[nm [nw [Hin' [Hn _]]]] | [[Hn _] | H]]] Hin He; [exfalso | exfalso | exfalso | exact H].
+  - rewrite He in Hn. exact (expl_isa_neq name new cls' l' new' Hin (reg_cls_any _ _ Hc') (access_in_table _ _ Ha') Hn).
+  - rewrite He in Hn. exact (expl_alias_neq name new nm nw Hin Hin' Hn).
+  - rewrite He in Hn. exact (expl_not_pcname name new Hin Hn).
 Qed.
 
 Definition regs_ok (regs : list (string * reginfo)) : Prop :=
@@ -547,15 +637,15 @@ Proof. intros n. reflexivity. Qed.
 (* what the model state may change while a statement or expression of the fragment is lowered: nothing is
    pending, removed or numbered; the immediate prologue and the register table only grow *)
 Definition st_ext (s s' : lstate) : Prop :=
-  st_pending s' = st_pending s /\ st_hcount s' = st_hcount s /\ incl (st_imms s) (st_imms s') /\
+  st_pending s' = st_pending s /\ (st_hcount s <= st_hcount s')%N /\ incl (st_imms s) (st_imms s') /\
   st_removed s' = st_removed s /\ (st_nonempty s = true -> st_nonempty s' = true) /\
   regs_le (st_regs s) (st_regs s').
 Lemma st_ext_refl s : st_ext s s.
-Proof. unfold st_ext. repeat split; auto using incl_refl, regs_le_refl. Qed.
+Proof. unfold st_ext. repeat split; auto using incl_refl, regs_le_refl, N.le_refl. Qed.
 Lemma st_ext_trans a b c : st_ext a b -> st_ext b c -> st_ext a c.
 Proof.
   intros [A1 [A2 [A3 [A4 [A5 A6]]]]] [B1 [B2 [B3 [B4 [B5 B6]]]]].
-  repeat split; try congruence; eauto using incl_tran, regs_le_trans.
+  repeat split; try congruence; eauto using incl_tran, regs_le_trans, N.le_trans.
 Qed.
 
 (* holder.is_empty() is false as soon as anything was registered *)
@@ -590,7 +680,7 @@ Proof.
     split; [reflexivity|]. split; [reflexivity|].
     split.
     { unfold st_ext; cbn [st_pending st_hcount st_imms st_removed st_nonempty st_regs].
-      repeat split; auto using incl_refl. intros n ri H. exists ri. rewrite lookup_reg_info_app, H. auto using acc_le_refl. }
+      repeat split; auto using incl_refl, N.le_refl. intros n ri H. exists ri. rewrite lookup_reg_info_app, H. auto using acc_le_refl. }
     split.
     { intros n ri. rewrite lookup_reg_info_app. destruct (lookup_reg_info n (st_regs st)) eqn:Eln.
       - intros H; injection H as <-. exact (Hr _ _ Eln).
@@ -626,12 +716,46 @@ Proof.
     split; [reflexivity|]. split; [reflexivity|].
     split.
     { unfold st_ext; cbn [st_pending st_hcount st_imms st_removed st_nonempty st_regs].
-      repeat split; auto using incl_refl. intros n ri H. exists ri. rewrite lookup_reg_info_app, H. auto using acc_le_refl. }
+      repeat split; auto using incl_refl, N.le_refl. intros n ri H. exists ri. rewrite lookup_reg_info_app, H. auto using acc_le_refl. }
     split.
     { intros n ri. rewrite lookup_reg_info_app. destruct (lookup_reg_info n (st_regs st)) eqn:Eln.
       - intros H; injection H as <-. exact (Hr _ _ Eln).
       - destruct (String.eqb_spec (alias_tname name new) n) as [<-|_]; [|discriminate].
         intros H; injection H as <-. right. left. exists name, new. cbn [r_op r_ty r_pc r_new r_acc]. auto 10. }
+    split; [reflexivity|].
+    rewrite lookup_reg_info_app, El, String.eqb_refl. eauto.
+Qed.
+
+(* reading / naming an explicit register: Lower.lower_operand on OExplicit *)
+Lemma lower_expl_ok cfg name new st : In name expl_names -> regs_ok (st_regs st) ->
+  exists st', lower_operand cfg (OExplicit name new) st =
+                OK (IPure (mkpv (PRaw ("$reg:" +++ expl_tname name new)) (ty_int true (expl_w name)) (KReg (expl_tname name new)) []), st') /\
+    st_vars st' = st_vars st /\ st_imms st' = st_imms st /\ st_ext st st' /\ regs_ok (st_regs st') /\
+    (started st -> st_nonempty st' = true) /\
+    exists ri, lookup_reg_info (expl_tname name new) (st_regs st') = Some ri.
+Proof.
+  intros Hin Hr. destruct (expl_facts name new Hin) as [Hinfo _].
+  cbn [lower_operand]. rewrite Hinfo.
+  change (name +++ (if new then "_new" else "")) with (expl_tname name new).
+  unfold add_reg, bind, get.
+  destruct (lookup_reg_info (expl_tname name new) (st_regs st)) as [old|] eqn:El.
+  - exists st. split.
+    { unfold ret, reg_value.
+      destruct (entry_expl _ _ name new (Hr _ _ El) Hin eq_refl) as [nm [nw [Hin' [Hn [_ [Ht _]]]]]].
+      destruct (expl_tname_inj _ _ _ _ Hin Hin' Hn) as [<- <-]. rewrite Ht. reflexivity. }
+    split; [reflexivity|]. split; [reflexivity|]. split; [apply st_ext_refl|]. split; [exact Hr|].
+    split; [|eauto].
+    intros [Hs | [_ Hs]]; [exact Hs|]. rewrite Hs in El. discriminate El.
+  - eexists. split; [reflexivity|]. cbn [st_vars st_regs st_nonempty st_imms].
+    split; [reflexivity|]. split; [reflexivity|].
+    split.
+    { unfold st_ext; cbn [st_pending st_hcount st_imms st_removed st_nonempty st_regs].
+      repeat split; auto using incl_refl, N.le_refl. intros n ri H. exists ri. rewrite lookup_reg_info_app, H. auto using acc_le_refl. }
+    split.
+    { intros n ri. rewrite lookup_reg_info_app. destruct (lookup_reg_info n (st_regs st)) eqn:Eln.
+      - intros H; injection H as <-. exact (Hr _ _ Eln).
+      - destruct (String.eqb_spec (expl_tname name new) n) as [<-|_]; [|discriminate].
+        intros H; injection H as <-. right. right. right. exists name, new. cbn [r_op r_ty r_pc r_new r_acc]. auto 10. }
     split; [reflexivity|].
     rewrite lookup_reg_info_app, El, String.eqb_refl. eauto.
 Qed.
@@ -660,7 +784,7 @@ Proof.
     split; [reflexivity|]. split; [reflexivity|].
     split.
     { unfold st_ext; cbn [st_pending st_hcount st_imms st_removed st_nonempty st_regs].
-      repeat split; auto using incl_refl. intros n ri H. exists ri. rewrite lookup_reg_info_app, H. auto using acc_le_refl. }
+      repeat split; auto using incl_refl, N.le_refl. intros n ri H. exists ri. rewrite lookup_reg_info_app, H. auto using acc_le_refl. }
     split.
     { intros n ri. rewrite lookup_reg_info_app. destruct (lookup_reg_info n (st_regs st)) eqn:Eln.
       - intros H; injection H as <-. exact (Hr _ _ Eln).
@@ -679,9 +803,43 @@ Definition intkind (k : kind) : Prop :=
   match k with KVar _ | KReg _ | KExec | KTmp _ false | KLit _ false | KMacro => True | _ => False end.
 Definition boolkind (k : kind) : Prop :=
   match k with KBoolOp | KLit _ true => True | _ => False end.
+(* an integer type, possibly carrying the HYBRID_LVAR flag (the compiler sets it on the type of a variable it has applied
+   ++ / -- to; nothing in the repaired translation reads it): [ity t sg w] = "t is ty_int sg w up to that flag" *)
+Definition ty_h (h sg : bool) (w : N) : vtype := mkvt sg w false false false false h false false.
+Definition ity (t : vtype) (sg : bool) (w : N) : Prop := t = ty_h (vt_hyb t) sg w.
+Lemma ity_int sg w : ity (ty_int sg w) sg w. Proof. reflexivity. Qed.
+Lemma ity_h h sg w : ity (ty_h h sg w) sg w. Proof. reflexivity. Qed.
+Lemma ity_eq t sg w : t = ty_int sg w -> ity t sg w. Proof. intros ->. reflexivity. Qed.
+Lemma ity_const t sg w : ity t sg w -> vt_const t = false. Proof. intros ->. reflexivity. Qed.
+Lemma ity_inj t sg w sg' w' : ity t sg w -> ity t sg' w' -> sg = sg' /\ w = w'.
+Proof. unfold ity, ty_h. intros H1 H2. rewrite H1 in H2. injection H2. auto. Qed.
+
+(* erasing the flag *)
+Definition unhyb (t : vtype) : vtype :=
+  mkvt (vt_sg t) (vt_w t) (vt_bool t) (vt_void t) (vt_ext t) (vt_float t) false (vt_const t) (vt_tok t).
+Definition unhyb_o (t : option vtype) : option vtype := option_map unhyb t.
+Lemma unhyb_int sg w : unhyb (ty_int sg w) = ty_int sg w. Proof. reflexivity. Qed.
+Lemma unhyb_ity t sg w : unhyb t = ty_int sg w -> ity t sg w.
+Proof. destruct t as [a b c d e f g h i]. unfold unhyb, ity, ty_h, ty_int. cbn. intros H. injection H as -> -> -> -> -> -> -> ->. reflexivity. Qed.
+
+(* the pvals of the fragment: boolean or integer typed, of the kinds the fragment produces, without hybrid temporaries *)
 Definition goodpv (p : pval) : Prop :=
-  (pv_ty p = ty_bool /\ boolkind (pv_kind p)) \/
-  (exists sg w, okw w /\ pv_ty p = ty_int sg w /\ intkind (pv_kind p)).
+  (pv_ty p = ty_bool /\ boolkind (pv_kind p) /\ pv_tmps p = []) \/
+  (exists sg w, okw w /\ ity (pv_ty p) sg w /\ intkind (pv_kind p) /\ pv_tmps p = []).
+Lemma goodpv_tmps p : goodpv p -> pv_tmps p = [].
+Proof. intros [[_ [_ H]] | [sg [w [_ [_ [_ H]]]]]]; exact H. Qed.
+Lemma goodpv_tmps2 a c : goodpv a -> goodpv c -> pv_tmps a ++ pv_tmps c = [].
+Proof. intros Ha Hc. rewrite (goodpv_tmps a Ha), (goodpv_tmps c Hc). reflexivity. Qed.
+
+(* the type rules on integer types that may carry the hybrid flag: the flag of each operand is kept *)
+Lemma promoted_vtype_h h sg w : okw w ->
+  exists h', promoted_vtype (ty_h h sg w) = Some (ty_h h' (fst (promote (sg, w))) (snd (promote (sg, w)))).
+Proof. intros H. okw_cases H; destruct sg, h; vm_compute; eexists; reflexivity. Qed.
+Lemma c11_vtypes_h h1 s1 w1 h2 s2 w2 : okw w1 -> okw w2 ->
+  c11_vtypes (ty_h h1 s1 w1) (ty_h h2 s2 w2) =
+  Some (ty_h h1 (fst (uac (s1, w1) (s2, w2))) (snd (uac (s1, w1) (s2, w2))),
+        ty_h h2 (fst (uac (s1, w1) (s2, w2))) (snd (uac (s1, w1) (s2, w2)))).
+Proof. intros H1 H2. okw_cases H1; okw_cases H2; destruct s1, s2, h1, h2; vm_compute; reflexivity. Qed.
 
 Lemma okw32 : okw 32. Proof. unfold okw; auto. Qed.
 Lemma okw64 : okw 64. Proof. unfold okw; auto. Qed.
@@ -725,7 +883,7 @@ Definition touched (st : lstate) : lstate :=
 Lemma touch_eq st : touch st = OK (tt, touched st).
 Proof. reflexivity. Qed.
 Lemma st_ext_touched st : st_ext st (touched st).
-Proof. unfold st_ext, touched; cbn. repeat split; auto using incl_refl, regs_le_refl. Qed.
+Proof. unfold st_ext, touched; cbn. repeat split; auto using incl_refl, regs_le_refl, N.le_refl. Qed.
 
 (* ------------------------------------------------------------------ memory reads *)
 Lemma read_bytes_rel (E : cenv) cs ms : cs_mem cs = mem ms -> (forall a, ce_mem0 E a = mem0 ms a) ->
@@ -859,74 +1017,21 @@ Section Correct.
   Lemma sem_bool ms p v : pv_ty p = ty_bool -> sem ms p v ->
     exists b, v = VB b /\ eval rw ms [] (fin (pv_term p)) = Some (VB b).
   Proof. intros Ht [He Hs]. rewrite Ht in Hs. destruct Hs as [b ->]. eauto. Qed.
-  Lemma sem_int ms p v sg w : pv_ty p = ty_int sg w -> sem ms p v ->
+  Lemma ity_inv t sg w : ity t sg w -> exists h, t = ty_h h sg w.
+  Proof. intros H. exists (vt_hyb t). exact H. Qed.
+
+  Lemma sem_int ms p v sg w : ity (pv_ty p) sg w -> sem ms p v ->
     exists z, v = VBv w z /\ 0 <= z < pow2 w /\ eval rw ms [] (fin (pv_term p)) = Some (VBv w z).
   Proof. intros Ht [He Hs]. rewrite Ht in Hs. destruct Hs as [z [-> Hz]]. eauto. Qed.
 
+  Lemma shape_h h sg w z : 0 <= z < pow2 w -> shape (ty_h h sg w) (VBv w z).
+  Proof. intros. unfold shape. cbn [vt_bool ty_h vt_w]. eauto. Qed.
   Lemma shape_int sg w z : 0 <= z < pow2 w -> shape (ty_int sg w) (VBv w z).
-  Proof. intros. unfold shape. cbn [vt_bool ty_int vt_w]. eauto. Qed.
+  Proof. apply (shape_h false). Qed.
+  Lemma shape_ity t sg w z : ity t sg w -> 0 <= z < pow2 w -> shape t (VBv w z).
+  Proof. intros Ht. rewrite Ht. apply shape_h. Qed.
   Lemma shape_bool b : shape ty_bool (VB b).
   Proof. unfold shape. cbn [vt_bool ty_bool]. eauto. Qed.
-
-  Lemma wfc_cval_of p v : goodpv p -> shape (pv_ty p) v -> wfc (cval_of (pv_ty p) v).
-  Proof.
-    intros [[Ht _] | [sg [w [Hw [Ht _]]]]] Hs; rewrite Ht in *.
-    - destruct Hs as [b ->]. cbn. split; [auto|]. destruct b; cbn; lia.
-    - destruct Hs as [z [-> Hz]]. cbn in *. split; auto.
-  Qed.
-
-  Lemma init_a_cast_ok sg w p st : okw w -> goodpv p ->
-    exists p', init_a_cast cfg (ty_int sg w) p st = OK (p', st) /\ goodpv p' /\ pv_ty p' = ty_int sg w /\
-      (forall v b, pv_kind p' = KLit v b -> p' = p) /\
-      forall ms v, sem ms p v ->
-        exists v', sem ms p' v' /\ cval_of (pv_ty p') v' = conv (sg, w) (cval_of (pv_ty p) v).
-  Proof.
-    intros Hw Hp. destruct p as [tm ty k tmps].
-    destruct Hp as [[Ht Hk] | [sg0 [w0 [Hw0 [Ht Hk]]]]]; cbn [pv_ty pv_kind] in *; subst ty.
-    - (* boolean source *)
-      unfold init_a_cast, bind, ty_eq, ret. cbn [pv_ty pv_kind pv_tmps vt_float ty_int ty_bool orb is_numeric vt_void vt_ext negb andb].
-      assert (vtype_eqb (ty_int sg w) ty_bool = false) as ->.
-      { unfold vtype_eqb; cbn. okw_cases Hw; reflexivity. }
-      assert (Hcw : match k with KBoolOp => true | KLit _ true => fx_bool_int (fx cfg) | _ => false end = true).
-      { destruct k as [? [|]| | | | | | | |]; cbn in Hk; try contradiction; reflexivity. }
-      rewrite Hcw.
-      cbn [vt_bool ty_bool ty_int andb negb cond_wrap rd pv_term].
-      eexists; split; [reflexivity|]. split; [|split; [reflexivity|split; [discriminate|]]].
-      { right. exists sg, w. cbn. auto. }
-      intros ms v Hs. apply sem_bool in Hs; [|reflexivity]. destruct Hs as [b [-> He]]. cbn [pv_term] in He.
-      exists (VBv w (if b then wrap w 1 else wrap w 0)). split.
-      + split.
-        * cbn [pv_term fin_pure eval lit_pure]. rewrite He. cbn [sort_of_val sort_eqb]. rewrite N.eqb_refl. destruct b; reflexivity.
-        * cbn [pv_ty]. apply shape_int. destruct b; apply wrap_range.
-      + cbn [pv_ty cval_of ty_int vt_sg]. unfold conv, mkval, vint, int_t, interp. cbn [fst snd].
-        destruct b; f_equal.
-    - (* integer source *)
-      unfold init_a_cast, bind, ty_eq, ret. cbn [pv_ty pv_kind pv_tmps vt_float ty_int orb is_numeric vt_void vt_ext negb andb].
-      destruct (vtype_eqb (ty_int sg w) (ty_int sg0 w0)) eqn:Eeq.
-      + unfold vtype_eqb in Eeq; cbn in Eeq.
-        assert (w = w0) by lia. assert (sg = sg0) by (destruct sg, sg0; cbn in Eeq; try lia; reflexivity). subst w0 sg0.
-        eexists; split; [reflexivity|]. split; [|split; [reflexivity|split; [reflexivity|]]].
-        { right. exists sg, w. cbn. auto. }
-        intros ms v Hs. exists v. split; auto. cbn [pv_ty].
-        assert (Hwf : wfc (cval_of (ty_int sg w) v)).
-        { apply (wfc_cval_of (mkpv tm (ty_int sg w) k tmps)); [right; exists sg, w; cbn; auto | apply Hs]. }
-        destruct Hs as [_ [z [-> Hz]]]. cbn [cval_of vt_sg vt_w ty_int] in *.
-        symmetry. apply (conv_same ((sg, w), z)). auto.
-      + cbn [vt_bool ty_int andb fx cfg_fx fx_cast_fill all_fixes vt_w vt_sg rd pv_term].
-        eexists; split; [reflexivity|]. split; [|split; [reflexivity|split; [discriminate|]]].
-        { right. exists sg, w. cbn. auto. }
-        intros ms v Hs. eapply sem_int in Hs; [|reflexivity]. destruct Hs as [z [-> [Hz He]]]. cbn [pv_term] in He.
-        exists (VBv w (wrap w (interp (sg0, w0) z))). split.
-        * split; [|cbn [pv_ty]; apply shape_int; apply wrap_range].
-          cbn [pv_term]. destruct (w0 <? w)%N eqn:Elt.
-          -- cbn [fin_pure eval]. destruct sg0.
-             ++ cbn [fin_pure eval]. rewrite He. f_equal. f_equal. apply (cast_widen w0 w true z); auto.
-             ++ cbn [fin_pure eval]. rewrite He. f_equal. f_equal. apply (cast_widen w0 w false z); auto.
-          -- unfold cast_il_exec. cbn [vt_w vt_sg ty_int fin_pure eval].
-             destruct (sg && sg0); cbn [fin_pure eval]; rewrite He; f_equal; f_equal; apply cast_narrow; auto; lia.
-        * cbn [pv_ty cval_of ty_int vt_sg]. reflexivity.
-  Qed.
-
   Definition cty_of (t : vtype) : cty := if vt_bool t then int_t else (vt_sg t, vt_w t).
 
   Lemma fst_cval_of t v : shape t v -> fst (cval_of t v) = cty_of t.
@@ -936,117 +1041,196 @@ Section Correct.
     - intros [z [-> _]]. reflexivity.
   Qed.
 
-  Lemma vtype_eqb_int s1 w1 s2 w2 : vtype_eqb (ty_int s1 w1) (ty_int s2 w2) = true -> s1 = s2 /\ w1 = w2.
-  Proof. unfold vtype_eqb; cbn. intros H. split; [destruct s1, s2; cbn in H; try lia; reflexivity | lia]. Qed.
-
-  Lemma goodpv_int_cty p sg w : pv_ty p = ty_int sg w -> cty_of (pv_ty p) = (sg, w).
+  Lemma cval_of_ity t sg w z : ity t sg w -> cval_of t (VBv w z) = ((sg, w), z).
   Proof. intros ->. reflexivity. Qed.
+  Lemma cty_of_ity t sg w : ity t sg w -> cty_of t = (sg, w).
+  Proof. intros ->. reflexivity. Qed.
+
+  Lemma wfc_cval_of p v : goodpv p -> shape (pv_ty p) v -> wfc (cval_of (pv_ty p) v).
+  Proof.
+    intros [[Ht _] | [sg [w [Hw [Ht _]]]]] Hs; rewrite Ht in *.
+    - destruct Hs as [b ->]. cbn. split; [auto|]. destruct b; cbn; lia.
+    - destruct Hs as [z [-> Hz]]. cbn in *. split; auto.
+  Qed.
+
+  (* constructors of goodpv *)
+  Lemma goodpv_i p sg w : okw w -> ity (pv_ty p) sg w -> intkind (pv_kind p) -> pv_tmps p = [] -> goodpv p.
+  Proof. intros. right. exists sg, w. auto. Qed.
+  Lemma goodpv_b p : pv_ty p = ty_bool -> boolkind (pv_kind p) -> pv_tmps p = [] -> goodpv p.
+  Proof. intros. left. auto. Qed.
+  (* finishes a goodpv goal once the disjunct and the witnesses are chosen *)
+  Ltac gp := cbn [pv_ty pv_kind pv_tmps intkind boolkind app]; repeat split;
+             auto using ity_int, ity_h, goodpv_tmps2, goodpv_tmps; try exact I; try reflexivity.
+
+  Lemma vtype_eqb_h h1 s1 w1 h2 s2 w2 : vtype_eqb (ty_h h1 s1 w1) (ty_h h2 s2 w2) = true -> s1 = s2 /\ w1 = w2.
+  Proof. unfold vtype_eqb; cbn. intros H. split; [destruct s1, s2; cbn in H; try lia; reflexivity | lia]. Qed.
+  Lemma vtype_eqb_int s1 w1 s2 w2 : vtype_eqb (ty_int s1 w1) (ty_int s2 w2) = true -> s1 = s2 /\ w1 = w2.
+  Proof. apply (vtype_eqb_h false s1 w1 false s2 w2). Qed.
+
+  (* Cast to an integer type T (= ty_int sg w up to the hybrid flag) *)
+  Lemma init_a_cast_gen T sg w p st : okw w -> ity T sg w -> goodpv p ->
+    exists p', init_a_cast cfg T p st = OK (p', st) /\ goodpv p' /\ ity (pv_ty p') sg w /\
+      (forall v b, pv_kind p' = KLit v b -> p' = p) /\
+      forall ms v, sem ms p v ->
+        exists v', sem ms p' v' /\ cval_of (pv_ty p') v' = conv (sg, w) (cval_of (pv_ty p) v).
+  Proof.
+    intros Hw HT Hp. destruct (ity_inv _ _ _ HT) as [hT ->]. destruct p as [tm ty k tmps].
+    destruct Hp as [[Ht [Hk Htm]] | [sg0 [w0 [Hw0 [Ht [Hk Htm]]]]]]; cbn [pv_ty pv_kind pv_tmps] in *; subst tmps.
+    - (* boolean source *)
+      subst ty.
+      unfold init_a_cast, bind, ty_eq, ret. cbn [pv_ty pv_kind pv_tmps vt_float ty_h ty_bool orb is_numeric vt_void vt_ext negb andb].
+      assert (vtype_eqb (ty_h hT sg w) ty_bool = false) as ->.
+      { unfold vtype_eqb; cbn. okw_cases Hw; reflexivity. }
+      assert (Hcw : match k with KBoolOp => true | KLit _ true => fx_bool_int (fx cfg) | _ => false end = true).
+      { destruct k as [? [|]| | | | | | | |]; cbn in Hk; try contradiction; reflexivity. }
+      rewrite Hcw.
+      cbn [vt_bool ty_bool ty_h andb negb cond_wrap rd pv_term].
+      eexists; split; [reflexivity|]. split; [|split; [apply ity_h|split; [discriminate|]]].
+      { apply (goodpv_i _ sg w); [exact Hw | apply ity_h | exact I | reflexivity]. }
+      intros ms v Hs. apply sem_bool in Hs; [|reflexivity]. destruct Hs as [b [-> He]]. cbn [pv_term] in He.
+      exists (VBv w (if b then wrap w 1 else wrap w 0)). split.
+      + split.
+        * cbn [pv_term fin_pure eval lit_pure ty_h vt_sg vt_w]. rewrite He. cbn [sort_of_val sort_eqb]. rewrite N.eqb_refl. destruct b; reflexivity.
+        * cbn [pv_ty]. apply shape_h. destruct b; apply wrap_range.
+      + cbn [pv_ty cval_of ty_h vt_sg]. unfold conv, mkval, vint, int_t, interp. cbn [fst snd].
+        destruct b; f_equal.
+    - (* integer source *)
+      destruct (ity_inv _ _ _ Ht) as [h0 E]. subst ty. clear Ht.
+      unfold init_a_cast, bind, ty_eq, ret. cbn [pv_ty pv_kind pv_tmps vt_float ty_h orb is_numeric vt_void vt_ext negb andb].
+      destruct (vtype_eqb (ty_h hT sg w) (ty_h h0 sg0 w0)) eqn:Eeq.
+      + apply vtype_eqb_h in Eeq. destruct Eeq as [<- <-].
+        eexists; split; [reflexivity|]. split; [|split; [apply ity_h|split; [reflexivity|]]].
+        { apply (goodpv_i _ sg w); [exact Hw | apply ity_h | exact Hk | reflexivity]. }
+        intros ms v Hs. exists v. split; auto. cbn [pv_ty].
+        destruct Hs as [_ [z [-> Hz]]]. cbn [cval_of vt_sg vt_w ty_h] in *.
+        symmetry. apply (conv_same ((sg, w), z)). split; auto.
+      + cbn [vt_bool ty_h andb fx cfg_fx fx_cast_fill all_fixes vt_w vt_sg rd pv_term].
+        eexists; split; [reflexivity|]. split; [|split; [apply ity_h|split; [discriminate|]]].
+        { apply (goodpv_i _ sg w); [exact Hw | apply ity_h | exact I | reflexivity]. }
+        intros ms v Hs. eapply sem_int in Hs; [|apply ity_h]. destruct Hs as [z [-> [Hz He]]]. cbn [pv_term] in He.
+        exists (VBv w (wrap w (interp (sg0, w0) z))). split.
+        * split; [|cbn [pv_ty]; apply shape_h; apply wrap_range].
+          cbn [pv_term]. destruct (w0 <? w)%N eqn:Elt.
+          -- cbn [fin_pure eval]. destruct sg0.
+             ++ cbn [fin_pure eval]. rewrite He. f_equal. f_equal. apply (cast_widen w0 w true z); auto.
+             ++ cbn [fin_pure eval]. rewrite He. f_equal. f_equal. apply (cast_widen w0 w false z); auto.
+          -- unfold cast_il_exec. cbn [vt_w vt_sg ty_h fin_pure eval].
+             destruct (sg && sg0); cbn [fin_pure eval]; rewrite He; f_equal; f_equal; apply cast_narrow; auto; lia.
+        * cbn [pv_ty cval_of ty_h vt_sg]. reflexivity.
+  Qed.
+
+  Lemma init_a_cast_ok sg w p st : okw w -> goodpv p ->
+    exists p', init_a_cast cfg (ty_int sg w) p st = OK (p', st) /\ goodpv p' /\ ity (pv_ty p') sg w /\
+      (forall v b, pv_kind p' = KLit v b -> p' = p) /\
+      forall ms v, sem ms p v ->
+        exists v', sem ms p' v' /\ cval_of (pv_ty p') v' = conv (sg, w) (cval_of (pv_ty p) v).
+  Proof. intros Hw Hp. exact (init_a_cast_gen (ty_int sg w) sg w p st Hw (ity_int sg w) Hp). Qed.
 
   Lemma promote_cases t : promote t = t \/ promote t = int_t.
   Proof. unfold promote. destruct (snd t <? 32)%N; auto. Qed.
 
   Lemma promotion_cast_ok p st : goodpv p ->
     exists p', promotion_cast cfg p st = OK (p', st) /\ goodpv p' /\
-      pv_ty p' = ty_int (fst (promote (cty_of (pv_ty p)))) (snd (promote (cty_of (pv_ty p)))) /\
+      ity (pv_ty p') (fst (promote (cty_of (pv_ty p)))) (snd (promote (cty_of (pv_ty p)))) /\
       okw (snd (promote (cty_of (pv_ty p)))) /\
       (forall v b, pv_kind p' = KLit v b -> p' = p) /\
       forall ms v, sem ms p v ->
         exists v', sem ms p' v' /\ cval_of (pv_ty p') v' = conv (promote (cty_of (pv_ty p))) (cval_of (pv_ty p) v).
   Proof.
     intros Hp. unfold promotion_cast, bind, need_numeric, ret.
-    destruct Hp as [[Ht Hk] | [sg0 [w0 [Hw0 [Ht Hk]]]]].
+    pose proof Hp as [[Ht Hk] | [sg0 [w0 [Hw0 [Ht Hk]]]]].
     - rewrite Ht. cbn [is_numeric ty_bool vt_void vt_ext negb andb]. rewrite promoted_vtype_bool.
       unfold ty_eq, ret. cbn [is_numeric ty_bool ty_int vt_void vt_ext negb andb].
       change (vtype_eqb (ty_int true 32) ty_bool) with false. cbv iota.
-      destruct (init_a_cast_ok true 32 p st okw32 (or_introl (conj Ht Hk))) as [p' [H1 [H2 [H3 [H4 H5]]]]].
+      destruct (init_a_cast_ok true 32 p st okw32 Hp) as [p' [H1 [H2 [H3 [H4 H5]]]]].
       exists p'. rewrite <- Ht. split; [exact H1|]. split; [exact H2|]. rewrite Ht. cbn. split; [exact H3|]. split; [auto|].
       split; [exact H4|]. intros ms v Hs. destruct (H5 ms v Hs) as [v' [Hs' Hc]]. exists v'. split; auto. rewrite Ht in Hc. exact Hc.
-    - assert (Hg : goodpv p) by (right; exists sg0, w0; auto).
-      rewrite Ht. cbn [is_numeric ty_int vt_void vt_ext negb andb]. rewrite promoted_vtype_plain by auto.
-      unfold ty_eq, ret. cbn [is_numeric ty_int vt_void vt_ext negb andb].
-      unfold cty_of. cbn [vt_bool ty_int vt_sg vt_w].
+    - destruct (ity_inv _ _ _ Ht) as [h0 E]. rewrite E. cbn [is_numeric ty_h vt_void vt_ext negb andb].
+      destruct (promoted_vtype_h h0 sg0 w0 Hw0) as [h' Ep]. rewrite Ep.
+      unfold ty_eq, ret. cbn [is_numeric ty_h vt_void vt_ext negb andb].
+      unfold cty_of. cbn [vt_bool ty_h vt_sg vt_w].
       pose proof (promote_okw sg0 w0 Hw0) as Hpw.
       destruct (vtype_eqb _ _) eqn:Eeq.
-      + apply vtype_eqb_int in Eeq. destruct Eeq as [E1 E2].
+      + apply vtype_eqb_h in Eeq. destruct Eeq as [E1 E2].
         exists p. split; [reflexivity|]. split; [auto|]. rewrite E1, E2. split; [exact Ht|]. split; [auto|]. split; [reflexivity|].
         intros ms v Hs. exists v. split; auto.
-        destruct (sem_int ms p v sg0 w0 Ht Hs) as [z [-> [Hz He]]]. rewrite Ht.
-        cbn [cval_of vt_sg vt_w ty_int] in *.
+        destruct (sem_int ms p v sg0 w0 Ht Hs) as [z [-> [Hz He]]]. rewrite E.
+        cbn [cval_of vt_sg vt_w ty_h] in *.
         replace (promote (sg0, w0)) with (sg0, w0) by (destruct (promote (sg0, w0)); cbn in *; congruence).
         symmetry. apply (conv_same ((sg0, w0), z)). split; auto.
-      + destruct (init_a_cast_ok (fst (promote (sg0, w0))) (snd (promote (sg0, w0))) p st Hpw Hg) as [p' [H1 [H2 [H3 [H4 H5]]]]].
-        exists p'. rewrite <- Ht. split; [exact H1|]. split; [exact H2|]. split; [exact H3|]. split; [auto|].
+      + destruct (init_a_cast_gen (ty_h h' (fst (promote (sg0, w0))) (snd (promote (sg0, w0)))) _ _ p st Hpw (ity_h _ _ _) Hp)
+          as [p' [H1 [H2 [H3 [H4 H5]]]]].
+        exists p'. rewrite <- E. split; [exact H1|]. split; [exact H2|]. split; [exact H3|]. split; [auto|].
         split; [exact H4|]. intros ms v Hs. destruct (H5 ms v Hs) as [v' [Hs' Hc]]. exists v'. split; auto.
-        rewrite Hc. rewrite Ht. destruct (promote (sg0, w0)); reflexivity.
+        rewrite Hc. rewrite E. destruct (promote (sg0, w0)); reflexivity.
   Qed.
 
-
-  Lemma goodpv_int p sg w : okw w -> pv_ty p = ty_int sg w -> goodpv p -> intkind (pv_kind p).
-  Proof. intros Hw Ht [[Hb _] | [s0 [w0 [_ [_ Hk]]]]]; [rewrite Ht in Hb; discriminate | exact Hk]. Qed.
+  Lemma goodpv_int p sg w : okw w -> ity (pv_ty p) sg w -> goodpv p -> intkind (pv_kind p).
+  Proof. intros Hw Ht [[Hb _] | [s0 [w0 [_ [_ [Hk _]]]]]]; [rewrite Ht in Hb; discriminate | exact Hk]. Qed.
 
   Lemma uac_same s w : uac (s, w) (s, w) = (s, w).
   Proof. unfold uac; cbn [fst snd]. rewrite eqb_reflx. rewrite N.max_id. reflexivity. Qed.
 
-  (* conversion of one operand to the common type, as cast_operands does it *)
-  Lemma maybe_cast_ok sg w p st s0 w0 : okw w -> okw w0 -> goodpv p -> pv_ty p = ty_int s0 w0 ->
-    exists p', (if negb (N.eqb w (vt_w (pv_ty p))) || negb (Bool.eqb sg (vt_sg (pv_ty p)))
-                then init_a_cast cfg (ty_int sg w) p else ret p) st = OK (p', st) /\ goodpv p' /\
-      pv_ty p' = ty_int sg w /\
+  (* conversion of one operand to the common type T, as cast_operands does it *)
+  Lemma maybe_cast_ok T sg w p st s0 w0 : okw w -> okw w0 -> ity T sg w -> goodpv p -> ity (pv_ty p) s0 w0 ->
+    exists p', (if negb (N.eqb (vt_w T) (vt_w (pv_ty p))) || negb (Bool.eqb (vt_sg T) (vt_sg (pv_ty p)))
+                then init_a_cast cfg T p else ret p) st = OK (p', st) /\ goodpv p' /\
+      ity (pv_ty p') sg w /\
       forall ms v, sem ms p v ->
         exists v', sem ms p' v' /\ cval_of (pv_ty p') v' = conv (sg, w) (cval_of (pv_ty p) v).
   Proof.
-    intros Hw Hw0 Hg Ht.
-    destruct (negb (N.eqb w (vt_w (pv_ty p))) || negb (Bool.eqb sg (vt_sg (pv_ty p)))) eqn:E.
-    - destruct (init_a_cast_ok sg w p st Hw Hg) as [p' [H1 [H2 [H3 [H4 H5]]]]]. exists p'. auto.
-    - rewrite Ht in E. cbn [vt_w vt_sg ty_int] in E.
+    intros Hw Hw0 HT Hg Ht.
+    destruct (negb (N.eqb (vt_w T) (vt_w (pv_ty p))) || negb (Bool.eqb (vt_sg T) (vt_sg (pv_ty p)))) eqn:E.
+    - destruct (init_a_cast_gen T sg w p st Hw HT Hg) as [p' [H1 [H2 [H3 [H4 H5]]]]]. exists p'. auto.
+    - rewrite HT, Ht in E. cbn [vt_w vt_sg ty_h] in E.
       assert (w = w0) by lia. assert (sg = s0) by (destruct sg, s0; cbn in E; try lia; reflexivity). subst w0 s0.
       exists p. split; [reflexivity|]. split; [auto|]. split; [auto|].
       intros ms v Hs. exists v. split; auto.
-      destruct (sem_int ms p v sg w Ht Hs) as [z [-> [Hz He]]]. rewrite Ht.
-      cbn [cval_of vt_sg vt_w ty_int]. symmetry. apply (conv_same ((sg, w), z)). split; auto.
+      destruct (sem_int ms p v sg w Ht Hs) as [z [-> [Hz He]]]. rewrite (cval_of_ity _ sg w z Ht).
+      symmetry. apply (conv_same ((sg, w), z)). split; auto.
   Qed.
 
   Lemma cast_operands_ok a b st sa wa sb wb : okw wa -> okw wb -> goodpv a -> goodpv b ->
-    pv_ty a = ty_int sa wa -> pv_ty b = ty_int sb wb ->
+    ity (pv_ty a) sa wa -> ity (pv_ty b) sb wb ->
     exists a' b', cast_operands cfg false a b st = OK ((a', b'), st) /\ goodpv a' /\ goodpv b' /\
-      pv_ty a' = ty_int (fst (uac (sa, wa) (sb, wb))) (snd (uac (sa, wa) (sb, wb))) /\
-      pv_ty b' = ty_int (fst (uac (sa, wa) (sb, wb))) (snd (uac (sa, wa) (sb, wb))) /\
+      ity (pv_ty a') (fst (uac (sa, wa) (sb, wb))) (snd (uac (sa, wa) (sb, wb))) /\
+      ity (pv_ty b') (fst (uac (sa, wa) (sb, wb))) (snd (uac (sa, wa) (sb, wb))) /\
       forall ms va vb, sem ms a va -> sem ms b vb ->
         exists va' vb', sem ms a' va' /\ sem ms b' vb' /\
           cval_of (pv_ty a') va' = conv (uac (sa, wa) (sb, wb)) (cval_of (pv_ty a) va) /\
           cval_of (pv_ty b') vb' = conv (uac (sa, wa) (sb, wb)) (cval_of (pv_ty b) vb).
   Proof.
     intros Hwa Hwb Hga Hgb Hta Htb.
-    unfold cast_operands, bind, ty_eq, ret. rewrite Hta, Htb.
-    cbn [is_numeric ty_int vt_void vt_ext negb andb].
-    destruct (vtype_eqb (ty_int sa wa) (ty_int sb wb)) eqn:Eeq.
-    - apply vtype_eqb_int in Eeq. destruct Eeq as [<- <-]. rewrite uac_same. cbn [fst snd].
+    destruct (ity_inv _ _ _ Hta) as [ha Ea]. destruct (ity_inv _ _ _ Htb) as [hb Eb].
+    unfold cast_operands, bind, ty_eq, ret. rewrite Ea, Eb.
+    cbn [is_numeric ty_h vt_void vt_ext negb andb].
+    destruct (vtype_eqb (ty_h ha sa wa) (ty_h hb sb wb)) eqn:Eeq.
+    - apply vtype_eqb_h in Eeq. destruct Eeq as [<- <-]. rewrite uac_same. cbn [fst snd].
       exists a, b. split; [reflexivity|]. repeat (split; [assumption|]).
       intros ms va vb Hsa Hsb. exists va, vb. split; [auto|]. split; [auto|].
       destruct (sem_int ms a va sa wa Hta Hsa) as [za [-> [Hza _]]].
       destruct (sem_int ms b vb sa wa Htb Hsb) as [zb [-> [Hzb _]]].
-      rewrite Hta, Htb. cbn [cval_of vt_sg vt_w ty_int].
+      rewrite Ea, Eb. cbn [cval_of vt_sg vt_w ty_h].
       split; symmetry; [apply (conv_same ((sa, wa), za)) | apply (conv_same ((sa, wa), zb))]; split; auto.
-    - rewrite c11_vtypes_plain by auto.
+    - rewrite c11_vtypes_h by auto.
       pose proof (uac_okw sa wa sb wb Hwa Hwb) as Hwu.
       destruct (uac (sa, wa) (sb, wb)) as [su wu] eqn:Eu. cbn [fst snd] in *.
-      cbn [vt_w vt_sg ty_int].
-      destruct (maybe_cast_ok su wu a st sa wa Hwu Hwa Hga Hta) as [a' [A1 [A2 [A3 A4]]]].
-      rewrite Hta in A1. cbn [vt_w vt_sg ty_int] in A1. unfold ret in A1. rewrite A1.
-      destruct (maybe_cast_ok su wu b st sb wb Hwu Hwb Hgb Htb) as [b' [B1 [B2 [B3 B4]]]].
-      rewrite Htb in B1. cbn [vt_w vt_sg ty_int] in B1. unfold ret in B1. rewrite B1.
+      destruct (maybe_cast_ok (ty_h ha su wu) su wu a st sa wa Hwu Hwa (ity_h _ _ _) Hga Hta) as [a' [A1 [A2 [A3 A4]]]].
+      rewrite Ea in A1. unfold ret in A1. rewrite A1.
+      destruct (maybe_cast_ok (ty_h hb su wu) su wu b st sb wb Hwu Hwb (ity_h _ _ _) Hgb Htb) as [b' [B1 [B2 [B3 B4]]]].
+      rewrite Eb in B1. unfold ret in B1. rewrite B1.
       exists a', b'. split; [reflexivity|]. repeat (split; [assumption|]).
       intros ms va vb Hsa Hsb.
       destruct (A4 ms va Hsa) as [va' [Sa Ca]]. destruct (B4 ms vb Hsb) as [vb' [Sb Cb]].
-      exists va', vb'. rewrite Hta, Htb in *. auto.
+      exists va', vb'. rewrite Ea, Eb in *. auto.
   Qed.
 
   (* the operand preparation shared by + - * & | ^ comparisons and ?: *)
   Lemma prep_ok a c st : goodpv a -> goodpv c ->
     exists a' c', (do pa <- promotion_cast cfg a; do pc <- promotion_cast cfg c; cast_operands cfg false pa pc) st = OK ((a', c'), st) /\
       goodpv a' /\ goodpv c' /\
-      pv_ty a' = ty_int (fst (arith_ty (cty_of (pv_ty a)) (cty_of (pv_ty c)))) (snd (arith_ty (cty_of (pv_ty a)) (cty_of (pv_ty c)))) /\
-      pv_ty c' = ty_int (fst (arith_ty (cty_of (pv_ty a)) (cty_of (pv_ty c)))) (snd (arith_ty (cty_of (pv_ty a)) (cty_of (pv_ty c)))) /\
+      ity (pv_ty a') (fst (arith_ty (cty_of (pv_ty a)) (cty_of (pv_ty c)))) (snd (arith_ty (cty_of (pv_ty a)) (cty_of (pv_ty c)))) /\
+      ity (pv_ty c') (fst (arith_ty (cty_of (pv_ty a)) (cty_of (pv_ty c)))) (snd (arith_ty (cty_of (pv_ty a)) (cty_of (pv_ty c)))) /\
       okw (snd (arith_ty (cty_of (pv_ty a)) (cty_of (pv_ty c)))) /\
       forall ms va vc, sem ms a va -> sem ms c vc ->
         exists va' vc', sem ms a' va' /\ sem ms c' vc' /\
@@ -1072,21 +1256,20 @@ Section Correct.
     rewrite <- Ea, <- Ec. rewrite !conv_conv_promote by auto. auto.
   Qed.
 
-
   Lemma int_of_bool_ok p st : goodpv p ->
-    exists p' sg w, int_of_bool cfg p st = OK (p', st) /\ goodpv p' /\ pv_ty p' = ty_int sg w /\ okw w /\
+    exists p' sg w, int_of_bool cfg p st = OK (p', st) /\ goodpv p' /\ ity (pv_ty p') sg w /\ okw w /\
       forall ms v, sem ms p v -> exists v', sem ms p' v' /\ cval_of (pv_ty p') v' = cval_of (pv_ty p) v.
   Proof.
     intros Hg. unfold int_of_bool. cbn [fx cfg_fx fx_bool_int all_fixes andb].
-    destruct Hg as [[Ht Hk] | [sg0 [w0 [Hw0 [Ht Hk]]]]].
-    - assert (Hg : goodpv p) by (left; auto). rewrite Ht. cbn [vt_bool ty_bool].
+    pose proof Hg as [[Ht Hk] | [sg0 [w0 [Hw0 [Ht Hk]]]]].
+    - rewrite Ht. cbn [vt_bool ty_bool].
       destruct (init_a_cast_ok true 32 p st okw32 Hg) as [p' [H1 [H2 [H3 [_ H5]]]]].
       exists p', true, 32%N. repeat (split; [auto|]).
       intros ms v Hs. destruct (H5 ms v Hs) as [v' [S' C']]. exists v'. split; [auto|]. rewrite C'.
       pose proof (wfc_cval_of p v Hg (proj2 Hs)) as W. assert (F : fst (cval_of (pv_ty p) v) = (true, 32%N)) by (rewrite (fst_cval_of _ _ (proj2 Hs)), Ht; reflexivity).
       rewrite <- Ht. rewrite <- F. apply conv_same. auto.
-    - assert (Hg : goodpv p) by (right; exists sg0, w0; auto). rewrite Ht. cbn [vt_bool ty_int].
-      exists p, sg0, w0. split; [reflexivity|]. repeat (split; [auto|]). intros ms v Hs. exists v. rewrite Ht. auto.
+    - rewrite Ht. cbn [vt_bool ty_h]. rewrite <- Ht.
+      exists p, sg0, w0. split; [reflexivity|]. repeat (split; [auto|]). intros ms v Hs. exists v. auto.
   Qed.
 
   Lemma bind_OK {A B} (m : M A) (f : A -> M B) st a st' : m st = OK (a, st') -> bind m f st = f a st'.
@@ -1097,47 +1280,48 @@ Section Correct.
   (* ------------------------------------------------------------------ addresses, loaded values, macro arguments *)
   (* the address of mem_load / mem_store: converted to the 32-bit address type (D20 repaired) *)
   Lemma addr_ok p st : goodpv p ->
-    exists p', addr_of cfg p st = OK (p', st) /\
+    exists p', addr_of cfg p st = OK (p', st) /\ pv_tmps p' = [] /\
       forall ms v, sem ms p v ->
         exists w1 z, eval rw ms [] (fin (pv_term p')) = Some (VBv w1 z) /\
                      snd (conv (false, 32%N) (cval_of (pv_ty p) v)) = z.
   Proof.
     intros Hg.
     destruct (int_of_bool_ok p st Hg) as [p1 [s1 [w1 [I1 [G1 [T1 [W1 I5]]]]]]].
+    destruct (ity_inv _ _ _ T1) as [h1 E1].
     unfold addr_of. unfold bind at 1. rewrite I1. cbn [fx cfg_fx fx_addr all_fixes].
-    unfold bind, ty_eq, ret. rewrite T1. cbn [is_numeric ty_int vt_void vt_ext negb andb vt_w vt_tok].
-    destruct (vtype_eqb (ty_int s1 w1) (ty_int false 32)) eqn:Eeq; [|destruct (w1 =? 32)%N eqn:Ew].
-    - apply vtype_eqb_int in Eeq. destruct Eeq as [-> ->].
-      exists p1. split; [reflexivity|]. intros ms v Hs. destruct (I5 ms v Hs) as [v1 [S1 C1]].
+    unfold bind, ty_eq, ret. rewrite E1. cbn [is_numeric ty_int ty_h vt_void vt_ext negb andb vt_w vt_tok].
+    destruct (vtype_eqb (ty_h h1 s1 w1) (ty_int false 32)) eqn:Eeq; [|destruct (w1 =? 32)%N eqn:Ew].
+    - apply (vtype_eqb_h h1 s1 w1 false false 32) in Eeq. destruct Eeq as [-> ->].
+      exists p1. split; [reflexivity|]. split; [exact (goodpv_tmps p1 G1)|]. intros ms v Hs. destruct (I5 ms v Hs) as [v1 [S1 C1]].
       destruct (sem_int ms p1 v1 false 32 T1 S1) as [z [-> [Hz He]]].
-      exists 32%N, z. split; [exact He|]. rewrite <- C1, T1. cbn [cval_of vt_sg ty_int].
+      exists 32%N, z. split; [exact He|]. rewrite <- C1, (cval_of_ity _ false 32 z T1).
       unfold conv, mkval, vint. cbn [fst snd]. rewrite wrap_interp. apply wrap_small. exact Hz.
     - apply N.eqb_eq in Ew. subst w1. cbn [andb].
-      exists p1. split; [reflexivity|]. intros ms v Hs. destruct (I5 ms v Hs) as [v1 [S1 C1]].
+      exists p1. split; [reflexivity|]. split; [exact (goodpv_tmps p1 G1)|]. intros ms v Hs. destruct (I5 ms v Hs) as [v1 [S1 C1]].
       destruct (sem_int ms p1 v1 s1 32 T1 S1) as [z [-> [Hz He]]].
-      exists 32%N, z. split; [exact He|]. rewrite <- C1, T1. cbn [cval_of vt_sg ty_int].
+      exists 32%N, z. split; [exact He|]. rewrite <- C1, (cval_of_ity _ s1 32 z T1).
       unfold conv, mkval, vint. cbn [fst snd]. rewrite wrap_interp. apply wrap_small. exact Hz.
     - cbn [andb].
-      destruct (init_a_cast_ok false 32 p1 st okw32 G1) as [p2 [H1 [_ [H3 [_ H5]]]]].
-      rewrite H1. exists p2. split; [reflexivity|]. intros ms v Hs. destruct (I5 ms v Hs) as [v1 [S1 C1]].
+      destruct (init_a_cast_ok false 32 p1 st okw32 G1) as [p2 [H1 [G2 [H3 [_ H5]]]]].
+      rewrite H1. exists p2. split; [reflexivity|]. split; [exact (goodpv_tmps p2 G2)|]. intros ms v Hs. destruct (I5 ms v Hs) as [v1 [S1 C1]].
       destruct (H5 ms v1 S1) as [v2 [S2 C2]].
       destruct (sem_int ms p2 v2 false 32 H3 S2) as [z [-> [Hz He]]].
-      exists 32%N, z. split; [exact He|]. rewrite <- C1, <- C2, H3. reflexivity.
+      exists 32%N, z. split; [exact He|]. rewrite <- C1, <- C2, (cval_of_ity _ false 32 z H3). reflexivity.
   Qed.
 
   (* a value of a Token-width type (the result type of mem_load) converted to an integer type *)
-  Lemma init_a_cast_tok_ok sg w s0 w0 tm k tmps st : okw w -> okw w0 ->
-    exists p', init_a_cast cfg (ty_int sg w) (mkpv tm (ty_tok s0 w0) k tmps) st = OK (p', st) /\
+  Lemma init_a_cast_tok_ok sg w s0 w0 tm k st : okw w -> okw w0 ->
+    exists p', init_a_cast cfg (ty_int sg w) (mkpv tm (ty_tok s0 w0) k []) st = OK (p', st) /\
       goodpv p' /\ pv_ty p' = ty_int sg w /\ pv_kind p' = KExec /\
       forall ms z, eval rw ms [] (fin tm) = Some (VBv w0 z) -> 0 <= z < pow2 w0 ->
         exists v', sem ms p' v' /\ cval_of (pv_ty p') v' = conv (sg, w) ((s0, w0), z).
   Proof.
     intros Hw Hw0.
-    unfold init_a_cast, bind, ty_eq, ret. cbn [pv_ty pv_kind pv_tmps vt_float ty_int ty_tok orb is_numeric vt_void vt_ext negb andb].
+    unfold init_a_cast, bind, ty_eq, ret. cbn [pv_ty pv_kind pv_tmps vt_float ty_int ty_h ty_tok orb is_numeric vt_void vt_ext negb andb].
     assert (vtype_eqb (ty_int sg w) (ty_tok s0 w0) = false) as -> by reflexivity.
-    cbn [vt_bool ty_int ty_tok andb fx cfg_fx fx_cast_fill all_fixes vt_w vt_sg rd pv_term].
+    cbn [vt_bool ty_int ty_h ty_tok andb fx cfg_fx fx_cast_fill all_fixes vt_w vt_sg rd pv_term].
     eexists; split; [reflexivity|]. split; [|split; [reflexivity|split; [reflexivity|]]].
-    { right. exists sg, w. cbn. auto. }
+    { right. exists sg, w. gp. }
     intros ms z He Hz.
     exists (VBv w (wrap w (interp (s0, w0) z))). split.
     - split; [|cbn [pv_ty]; apply shape_int; apply wrap_range].
@@ -1145,15 +1329,16 @@ Section Correct.
       + destruct s0; cbn [fin_pure eval]; rewrite He; f_equal; f_equal.
         * apply (cast_widen w0 w true z); auto.
         * apply (cast_widen w0 w false z); auto.
-      + unfold cast_il_exec. cbn [vt_w vt_sg ty_int ty_tok fin_pure eval].
+      + unfold cast_il_exec. cbn [vt_w vt_sg ty_int ty_h ty_tok fin_pure eval].
         destruct (sg && s0); cbn [fin_pure eval]; rewrite He; f_equal; f_equal; apply cast_narrow; auto; lia.
-    - cbn [pv_ty cval_of ty_int vt_sg]. reflexivity.
+    - cbn [pv_ty cval_of ty_int ty_h vt_sg]. reflexivity.
   Qed.
 
   (* one argument of a macro / sub-routine call converted to the parameter type: a step of Lower.lower_args *)
   Lemma lower_args_cons p it sg w ptt rest tm st : okw w -> goodpv p ->
     lower_args cfg it ptt st = OK ((rest, tm), st) ->
     exists p', lower_args cfg (IPure p :: it) (ty_int sg w :: ptt) st = OK ((APure (rd p') :: rest, pv_tmps p' ++ tm), st) /\
+      pv_tmps p' = [] /\
       forall ms v, sem ms p v ->
         exists z, 0 <= z < pow2 w /\ eval rw ms [] (fin (pv_term p')) = Some (VBv w z) /\
                   conv (sg, w) (cval_of (pv_ty p) v) = ((sg, w), z).
@@ -1164,16 +1349,17 @@ Section Correct.
     { destruct Hg as [[Ht _] | [s0 [w0 [_ [Ht _]]]]]; rewrite Ht; reflexivity. }
     rewrite Hnum.
     destruct (vtype_eqb (pv_ty p) (ty_int sg w)) eqn:Eeq.
-    - exists p. split; [reflexivity|]. intros ms v Hs.
-      destruct Hg as [[Ht _] | [s0 [w0 [Hw0 [Ht _]]]]]; rewrite Ht in *.
-      + exfalso. unfold vtype_eqb in Eeq. cbn in Eeq. okw_cases Hw; discriminate.
-      + apply vtype_eqb_int in Eeq. destruct Eeq as [-> ->].
+    - exists p. split; [reflexivity|]. split; [exact (goodpv_tmps p Hg)|]. intros ms v Hs.
+      pose proof Hg as [[Ht _] | [s0 [w0 [Hw0 [Ht _]]]]].
+      + rewrite Ht in Eeq. exfalso. unfold vtype_eqb in Eeq. cbn in Eeq. okw_cases Hw; discriminate.
+      + destruct (ity_inv _ _ _ Ht) as [h0 E]. rewrite E in Eeq.
+        apply (vtype_eqb_h h0 s0 w0 false sg w) in Eeq. destruct Eeq as [-> ->].
         destruct (sem_int _ _ _ _ _ Ht Hs) as [z [-> [Hz He]]]. exists z. split; [exact Hz|]. split; [exact He|].
-        cbn [cval_of vt_sg ty_int]. apply (conv_same ((sg, w), z)). split; auto.
-    - destruct (init_a_cast_ok sg w p st Hw Hg) as [p' [H1 [_ [H3 [_ H5]]]]]. rewrite H1.
-      exists p'. split; [reflexivity|]. intros ms v Hs. destruct (H5 ms v Hs) as [v' [Hs' Hc]].
+        rewrite (cval_of_ity _ sg w z Ht). apply (conv_same ((sg, w), z)). split; auto.
+    - destruct (init_a_cast_ok sg w p st Hw Hg) as [p' [H1 [H2 [H3 [_ H5]]]]]. rewrite H1.
+      exists p'. split; [reflexivity|]. split; [exact (goodpv_tmps p' H2)|]. intros ms v Hs. destruct (H5 ms v Hs) as [v' [Hs' Hc]].
       destruct (sem_int ms p' v' sg w H3 Hs') as [z [-> [Hz He]]].
-      exists z. split; [exact Hz|]. split; [exact He|]. rewrite <- Hc, H3. reflexivity.
+      exists z. split; [exact Hz|]. split; [exact He|]. rewrite <- Hc, (cval_of_ity _ sg w z H3). reflexivity.
   Qed.
 
   Lemma find_mac_std sg : In sg std_macs -> find_mac cfg (mac_name sg) = Some sg.
@@ -1196,6 +1382,7 @@ Section Correct.
   Proof.
     intros Hb Hga Hgc Hnl.
     destruct (prep_ok a c st Hga Hgc) as [a' [c' [H1 [Ga' [Gc' [Ta' [Tc' [Hw H2]]]]]]]].
+    destruct (ity_inv _ _ _ Ta') as [ha' Ea']. destruct (ity_inv _ _ _ Tc') as [hc' Ec'].
     set (t := arith_ty (cty_of (pv_ty a)) (cty_of (pv_ty c))) in *.
     exists (mkpv (PBin (match b with Ast.BAdd => RzIL.BAdd | Ast.BSub => RzIL.BSub | _ => RzIL.BMul end) (rd a') (rd c'))
                  (pv_ty a') KExec (pv_tmps a' ++ pv_tmps c')).
@@ -1204,9 +1391,9 @@ Section Correct.
       (erewrite bind_OK by reflexivity); (erewrite bind_OK by reflexivity);
       (rewrite lit_match2 by exact Hnl); cbn [arith_of];
       (erewrite bind_OK by exact H1); cbn beta iota; unfold ret, arith_il_exec;
-      rewrite Ta'; cbn [vt_float ty_int andb vt_sg];
+      rewrite Ea'; cbn [vt_float ty_int ty_h andb vt_sg];
       destruct (fx cfg).(fx_divmod); destruct (fst t); reflexivity. }
-    split. { right. exists (fst t), (snd t). cbn. auto. }
+    split. { right. exists (fst t), (snd t). gp. }
     split. { cbn. auto. }
     intros ms va vc Sa Sc.
     destruct (H2 ms va vc Sa Sc) as [va' [vc' [Sa' [Sc' [Ca' Cc']]]]].
@@ -1215,8 +1402,8 @@ Section Correct.
     - split.
       + cbn [pv_term fin_pure eval]. unfold rd. rewrite Ex, Ey. rewrite N.eqb_refl.
         destruct Hb as [-> | [-> | ->]]; cbn; reflexivity.
-      + cbn [pv_ty]. rewrite Ta'. apply shape_int. apply wrap_range.
-    - cbn [pv_ty]. rewrite Ta' in *. rewrite Tc' in *. cbn [cval_of vt_sg ty_int] in *.
+      + cbn [pv_ty]. rewrite Ea'. apply shape_h. apply wrap_range.
+    - cbn [pv_ty]. rewrite Ea' in *. rewrite Ec' in *. cbn [cval_of vt_sg ty_int ty_h] in *.
       assert (Hfa : fst (cval_of (pv_ty a) va) = cty_of (pv_ty a)) by (apply fst_cval_of; apply Sa).
       assert (Hfc : fst (cval_of (pv_ty c) vc) = cty_of (pv_ty c)) by (apply fst_cval_of; apply Sc).
       assert (forall f, c_arith f (cval_of (pv_ty a) va) (cval_of (pv_ty c) vc) =
@@ -1252,6 +1439,7 @@ Section Correct.
   Proof.
     intros Hb Hga Hgc.
     destruct (prep_ok a c st Hga Hgc) as [a' [c' [H1 [Ga' [Gc' [Ta' [Tc' [Hw H2]]]]]]]].
+    destruct (ity_inv _ _ _ Ta') as [ha' Ea']. destruct (ity_inv _ _ _ Tc') as [hc' Ec'].
     set (t := arith_ty (cty_of (pv_ty a)) (cty_of (pv_ty c))) in *.
     exists (mkpv (PBin (match b with Ast.BAnd => BLogAnd | Ast.BOr => BLogOr | _ => BLogXor end) (rd a') (rd c'))
                  (pv_ty a') KExec (pv_tmps a' ++ pv_tmps c')).
@@ -1259,7 +1447,7 @@ Section Correct.
     { destruct Hb as [-> | [-> | ->]]; cbn [lower_binop];
       (erewrite bind_OK by reflexivity); (erewrite bind_OK by reflexivity);
       (erewrite prep_seq by exact H1); reflexivity. }
-    split. { right. exists (fst t), (snd t). cbn. auto. }
+    split. { right. exists (fst t), (snd t). gp. }
     split. { cbn. auto. }
     intros ms va vc Sa Sc.
     destruct (H2 ms va vc Sa Sc) as [va' [vc' [Sa' [Sc' [Ca' Cc']]]]].
@@ -1268,8 +1456,8 @@ Section Correct.
     - split.
       + cbn [pv_term fin_pure eval]. unfold rd. rewrite Ex, Ey. rewrite N.eqb_refl.
         destruct Hb as [-> | [-> | ->]]; cbn; reflexivity.
-      + cbn [pv_ty]. rewrite Ta'. apply shape_int. apply bit_fun_range; auto.
-    - cbn [pv_ty]. rewrite Ta' in *. rewrite Tc' in *. cbn [cval_of vt_sg ty_int] in *.
+      + cbn [pv_ty]. rewrite Ea'. apply shape_h. apply bit_fun_range; auto.
+    - cbn [pv_ty]. rewrite Ea' in *. rewrite Ec' in *. cbn [cval_of vt_sg ty_int ty_h] in *.
       assert (Hfa : fst (cval_of (pv_ty a) va) = cty_of (pv_ty a)) by (apply fst_cval_of; apply Sa).
       assert (Hfc : fst (cval_of (pv_ty c) vc) = cty_of (pv_ty c)) by (apply fst_cval_of; apply Sc).
       assert (forall f, c_bitop f (cval_of (pv_ty a) va) (cval_of (pv_ty c) vc) = (t, wrap (snd t) (f x y))) as Hc.
@@ -1302,6 +1490,7 @@ Section Correct.
   Proof.
     intros Hb Hga Hgc Hnl.
     destruct (prep_ok a c st Hga Hgc) as [a' [c' [H1 [Ga' [Gc' [Ta' [Tc' [Hw H2]]]]]]]].
+    destruct (ity_inv _ _ _ Ta') as [ha' Ea']. destruct (ity_inv _ _ _ Tc') as [hc' Ec'].
     set (t := arith_ty (cty_of (pv_ty a)) (cty_of (pv_ty c))) in *.
     exists (mkpv (cmp_il_exec (match b with Ast.BLt => "<" | Ast.BGt => ">" | Ast.BLe => "<=" | Ast.BGe => ">=" | Ast.BEq => "==" | _ => "!=" end)
                               (pv_ty a') (pv_ty c') (rd a') (rd c')) ty_bool KBoolOp (pv_tmps a' ++ pv_tmps c')).
@@ -1310,16 +1499,16 @@ Section Correct.
       (erewrite bind_OK by reflexivity); (erewrite bind_OK by reflexivity);
       (rewrite lit_match2 by exact Hnl); cbn [fx cfg_fx fx_cmp_promote all_fixes];
       (erewrite bind_OK by exact H1); cbn beta iota;
-      unfold need_numeric; rewrite Ta', Tc'; cbn [is_numeric ty_int vt_void vt_ext negb andb];
+      unfold need_numeric; rewrite Ea', Ec'; cbn [is_numeric ty_int ty_h vt_void vt_ext negb andb];
       (erewrite bind_OK by reflexivity); (erewrite bind_OK by reflexivity); reflexivity. }
-    split. { left. cbn. auto. }
+    split. { left. gp. }
     split. { cbn. auto. }
     intros ms va vc Sa Sc.
     destruct (H2 ms va vc Sa Sc) as [va' [vc' [Sa' [Sc' [Ca' Cc']]]]].
     destruct (sem_int _ _ _ _ _ Ta' Sa') as [x [-> [Hx Ex]]]. destruct (sem_int _ _ _ _ _ Tc' Sc') as [y [-> [Hy Ey]]].
     exists (VB (cmp_fun b (interp t x) (interp t y))). split.
     - split; [|apply shape_bool].
-      cbn [pv_term]. rewrite Ta', Tc'. unfold cmp_il_exec. cbn [vt_sg ty_int vt_float andb]. unfold rd.
+      cbn [pv_term]. rewrite Ea', Ec'. unfold cmp_il_exec. cbn [vt_sg ty_int ty_h vt_float andb]. unfold rd.
       destruct t as [sg w] eqn:Et. cbn [fst snd] in *.
       assert (Hu : forall z, 0 <= z < pow2 w -> interp (false, w) z = z) by (intros; apply interp_unsigned; auto).
       destruct Hb as [-> | [-> | [-> | [-> | [-> | ->]]]]]; cbn [String.eqb Ascii.eqb Bool.eqb cmp_fun];
@@ -1327,7 +1516,7 @@ Section Correct.
       rewrite ?Z.gtb_ltb, ?Z.geb_leb; try reflexivity;
       try (change (sval w x) with (interp (true, w) x); change (sval w y) with (interp (true, w) y); rewrite interp_eqb by auto; reflexivity);
       try (change (wrap w x) with (interp (false, w) x); change (wrap w y) with (interp (false, w) y); rewrite !Hu by auto; reflexivity).
-    - cbn [pv_ty]. rewrite Ta' in *. rewrite Tc' in *. cbn [cval_of vt_sg ty_int] in *.
+    - cbn [pv_ty]. rewrite Ea' in *. rewrite Ec' in *. cbn [cval_of vt_sg ty_int ty_h] in *.
       assert (Hfa : fst (cval_of (pv_ty a) va) = cty_of (pv_ty a)) by (apply fst_cval_of; apply Sa).
       assert (Hfc : fst (cval_of (pv_ty c) vc) = cty_of (pv_ty c)) by (apply fst_cval_of; apply Sc).
       assert (forall f, c_cmp f (cval_of (pv_ty a) va) (cval_of (pv_ty c) vc) =
@@ -1349,6 +1538,7 @@ Section Correct.
     intros Hb Hga Hgc.
     destruct (int_of_bool_ok c st Hgc) as [c' [sc [wc [C1 [C2 [C3 [C4 C5]]]]]]].
     destruct (promotion_cast_ok a st Hga) as [a' [A1 [A2 [A3 [A4 [_ A5]]]]]].
+    destruct (ity_inv _ _ _ A3) as [ha3 EA3]. destruct (ity_inv _ _ _ C3) as [hc3 EC3].
     set (t := promote (cty_of (pv_ty a))) in *.
     exists (mkpv (PBin (match b with Ast.BShl => BShl0 | _ => if fst t then BShra else BShr0 end) (rd a') (rd c'))
                  (pv_ty a') KExec (pv_tmps a' ++ pv_tmps c')).
@@ -1357,10 +1547,10 @@ Section Correct.
       (erewrite bind_OK by reflexivity); (erewrite bind_OK by reflexivity);
       (erewrite bind_OK by exact C1); cbn [fx cfg_fx fx_shift_promote all_fixes];
       (erewrite bind_OK by exact A1);
-      unfold need_numeric; rewrite A3; cbn [is_numeric ty_int vt_void vt_ext negb andb];
+      unfold need_numeric; rewrite EA3; cbn [is_numeric ty_int ty_h vt_void vt_ext negb andb];
       (erewrite bind_OK by reflexivity); [reflexivity|].
-      unfold bitop_il_exec. cbn [String.eqb Ascii.eqb Bool.eqb vt_sg ty_int]. destruct (fst t); reflexivity. }
-    split. { right. exists (fst t), (snd t). cbn. auto. }
+      unfold bitop_il_exec. cbn [String.eqb Ascii.eqb Bool.eqb vt_sg ty_int ty_h]. destruct (fst t); reflexivity. }
+    split. { right. exists (fst t), (snd t). gp. }
     split. { cbn. auto. }
     intros ms va vc Sa Sc.
     destruct (A5 ms va Sa) as [va' [Sa' Ca']]. destruct (C5 ms vc Sc) as [vc' [Sc' Cc']].
@@ -1384,8 +1574,8 @@ Section Correct.
     exists (VBv (snd t) res). split.
     - split.
       + cbn [pv_term fin_pure eval]. unfold rd. rewrite Ex, Ey. fold o. rewrite Ho. cbn [orb]. rewrite Hres. reflexivity.
-      + cbn [pv_ty]. rewrite A3. apply shape_int. auto.
-    - intros cv Hcv. cbn [pv_ty]. rewrite A3 in *. rewrite C3 in *. cbn [cval_of vt_sg ty_int] in *.
+      + cbn [pv_ty]. rewrite EA3. apply shape_h. auto.
+    - intros cv Hcv. cbn [pv_ty]. rewrite EA3 in *. rewrite EC3 in *. cbn [cval_of vt_sg ty_int ty_h] in *.
       pose proof (wfc_cval_of a va Hga (proj2 Sa)) as Wa. pose proof (wfc_cval_of c vc Hgc (proj2 Sc)) as Wc.
       assert (Hfa : fst (cval_of (pv_ty a) va) = cty_of (pv_ty a)) by (apply fst_cval_of; apply Sa).
       assert (Hcs : c_shift (match b with Ast.BShl => true | _ => false end) (cval_of (pv_ty a) va) (cval_of (pv_ty c) vc) = Some cv).
@@ -1401,24 +1591,83 @@ Section Correct.
       destruct t as [sg w]; reflexivity.
   Qed.
 
+  (* x <<= e;  x >>= e : Lower.compound_src promotes both operands (the count of a compound shift is promoted, unlike
+     that of a binary shift) *)
+  Lemma shift_compound_ok (a : asgop) d c st : (a = AShl \/ a = AShr) -> goodpv d -> goodpv c ->
+    exists r, compound_src cfg a d c st = OK (r, st) /\ goodpv r /\
+      forall ms vd vc, sem ms d vd -> sem ms c vc ->
+        exists vr, sem ms r vr /\
+          forall cv, c_shift (match a with AShl => true | _ => false end) (cval_of (pv_ty d) vd) (cval_of (pv_ty c) vc) = Some cv ->
+                     cv = cval_of (pv_ty r) vr.
+  Proof.
+    intros Hb Hgd Hgc.
+    destruct (promotion_cast_ok d st Hgd) as [a' [A1 [A2 [A3 [A4 [_ A5]]]]]].
+    destruct (promotion_cast_ok c st Hgc) as [c' [C1 [C2 [C3 [C4 [_ C5]]]]]].
+    destruct (ity_inv _ _ _ A3) as [ha3 EA3]. destruct (ity_inv _ _ _ C3) as [hc3 EC3].
+    set (t := promote (cty_of (pv_ty d))) in *. set (tc := promote (cty_of (pv_ty c))) in *.
+    exists (mkpv (PBin (match a with AShl => BShl0 | _ => if fst t then BShra else BShr0 end) (rd a') (rd c'))
+                 (pv_ty a') KExec (pv_tmps a' ++ pv_tmps c')).
+    split.
+    { destruct Hb as [-> | ->]; cbn [compound_src]; unfold bind; rewrite A1, C1; unfold ret;
+      unfold bitop_il_exec; rewrite EA3; cbn [String.eqb Ascii.eqb Bool.eqb vt_sg ty_int ty_h]; [reflexivity|].
+      destruct (fst t); reflexivity. }
+    split. { right. exists (fst t), (snd t). gp. }
+    intros ms va vc Sa Sc.
+    destruct (A5 ms va Sa) as [va' [Sa' Ca']]. destruct (C5 ms vc Sc) as [vc' [Sc' Cc']].
+    destruct (sem_int _ _ _ _ _ A3 Sa') as [x [-> [Hx Ex]]]. destruct (sem_int _ _ _ _ _ C3 Sc') as [y [-> [Hy Ey]]].
+    set (o := match a with AShl => BShl0 | _ => if fst t then BShra else BShr0 end).
+    assert (Ho : is_shift o = true) by (unfold o; destruct Hb as [-> | ->]; [|destruct (fst t)]; reflexivity).
+    assert (exists res, bin_sem o (snd t) x y = Some res /\ 0 <= res < pow2 (snd t) /\
+               (0 <= y < Z.of_N (snd t) ->
+                res = wrap (snd t) (if match a with AShl => true | _ => false end then interp t x * 2 ^ y else interp t x / 2 ^ y)))
+      as [res [Hres [Hrange Hval]]].
+    { unfold o. destruct t as [sg w] eqn:Et. cbn [fst snd] in *.
+      destruct Hb as [-> | ->]; [|destruct sg]; cbn [bin_sem]; eexists; (split; [reflexivity|]).
+      - split. + unfold shl0. destruct (y <? Z.of_N w); [apply wrap_range | pose proof (pow2_pos w); lia].
+        + intros Hn. apply shl_ok; auto.
+      - split. + unfold shra. destruct (y <? Z.of_N w); [apply wrap_range|]. pose proof (pow2_pos w). destruct (msb w x); lia.
+        + intros Hn. apply shra_ok; auto.
+      - split. + unfold shr0. pose proof (pow2_pos w). destruct (y <? Z.of_N w); [|lia].
+          rewrite wrap_small by auto. assert (0 < 2 ^ y) by (apply Z.pow_pos_nonneg; lia).
+          split; [apply Z.div_pos; lia|]. apply Z.div_lt_upper_bound; nia.
+        + intros Hn. apply shr_ok; auto. }
+    exists (VBv (snd t) res). split.
+    - split.
+      + cbn [pv_term fin_pure eval]. unfold rd. rewrite Ex, Ey. fold o. rewrite Ho. cbn [orb]. rewrite Hres. reflexivity.
+      + cbn [pv_ty]. rewrite EA3. apply shape_h. auto.
+    - intros cv Hcs. cbn [pv_ty]. rewrite EA3 in *. rewrite EC3 in *. cbn [cval_of vt_sg ty_int ty_h] in *.
+      pose proof (wfc_cval_of d va Hgd (proj2 Sa)) as Wa. pose proof (wfc_cval_of c vc Hgc (proj2 Sc)) as Wc.
+      assert (Hfa : fst (cval_of (pv_ty d) va) = cty_of (pv_ty d)) by (apply fst_cval_of; apply Sa).
+      assert (Hfc : fst (cval_of (pv_ty c) vc) = cty_of (pv_ty c)) by (apply fst_cval_of; apply Sc).
+      unfold c_shift in Hcs. rewrite Hfa, Hfc in Hcs. fold t in Hcs. fold tc in Hcs.
+      rewrite <- Ca', <- Cc' in Hcs.
+      destruct ((0 <=? vint (fst tc, snd tc, y)) && (vint (fst tc, snd tc, y) <? Z.of_N (snd t))) eqn:Erange; [|discriminate].
+      injection Hcs as <-.
+      unfold vint in Erange. cbn [fst snd] in Erange.
+      assert (Hn : interp (fst tc, snd tc) y = y) by (apply interp_nonneg; auto; lia).
+      unfold vint. cbn [fst snd]. rewrite Hn in *. unfold mkval.
+      rewrite Hval by lia. change (interp (fst t, snd t)) with (interp t).
+      destruct t as [sg w]; reflexivity.
+  Qed.
+
   (* ------------------------------------------------------------------ conditions, logical operators *)
   Definition truth (c : cval) : bool := negb (snd c =? 0).
 
   Lemma is_boolop_good p : goodpv p -> is_boolop cfg p = vt_bool (pv_ty p).
   Proof.
-    unfold is_boolop. intros [[Ht Hk] | [sg [w [_ [Ht Hk]]]]]; rewrite Ht.
+    unfold is_boolop. intros [[Ht [Hk _]] | [sg [w [_ [Ht [Hk _]]]]]]; rewrite Ht.
     - destruct (pv_kind p) as [? [|]| | | | |? [|] | | |]; cbn in Hk; try contradiction; reflexivity.
-    - cbn [vt_bool ty_int]. destruct (pv_kind p) as [? [|]| | | | |? [|] | | |]; cbn in Hk; try contradiction; reflexivity.
+    - cbn [vt_bool ty_int ty_h]. destruct (pv_kind p) as [? [|]| | | | |? [|] | | |]; cbn in Hk; try contradiction; reflexivity.
   Qed.
 
   Lemma cond_ok p ms v : goodpv p -> sem ms p v ->
     eval rw ms [] (fin (cond_of cfg p)) = Some (VB (truth (cval_of (pv_ty p) v))).
   Proof.
     intros Hg Hs. unfold cond_of. rewrite is_boolop_good by auto.
-    destruct Hg as [[Ht Hk] | [sg [w [_ [Ht Hk]]]]].
+    destruct Hg as [[Ht [Hk _]] | [sg [w [_ [Ht [Hk _]]]]]].
     - destruct (sem_bool _ _ _ Ht Hs) as [b [-> He]]. rewrite Ht. cbn [vt_bool ty_bool cond_wrap]. unfold rd. rewrite He.
       destruct b; reflexivity.
-    - destruct (sem_int _ _ _ _ _ Ht Hs) as [z [-> [Hz He]]]. rewrite Ht. cbn [vt_bool ty_int cond_wrap fin_pure eval]. unfold rd. rewrite He.
+    - destruct (sem_int _ _ _ _ _ Ht Hs) as [z [-> [Hz He]]]. rewrite Ht. cbn [vt_bool ty_int ty_h cond_wrap fin_pure eval]. unfold rd. rewrite He.
       reflexivity.
   Qed.
 
@@ -1435,7 +1684,7 @@ Section Correct.
     { destruct Hb as [-> | ->]; cbn [lower_binop];
       (erewrite bind_OK by reflexivity); (erewrite bind_OK by reflexivity);
       cbn [fx cfg_fx fx_bool_int all_fixes]; (erewrite bind_OK by reflexivity); reflexivity. }
-    split. { left. cbn. auto. }
+    split. { left. gp. }
     split. { cbn. auto. }
     intros ms va vc Sa Sc. split; [|apply shape_bool].
     pose proof (cond_ok a ms va Hga Sa) as Ea. pose proof (cond_ok c ms vc Hgc Sc) as Ec. unfold cond_of in Ea, Ec.
@@ -1457,20 +1706,21 @@ Section Correct.
   Proof.
     intros Hu Hga Hnl.
     destruct (promotion_cast_ok a st Hga) as [a' [A1 [A2 [A3 [A4 [_ A5]]]]]].
+    destruct (ity_inv _ _ _ A3) as [ha3 EA3].
     set (t := promote (cty_of (pv_ty a))) in *.
     exists (mkpv (PUn (match u with UNot => ULogNot | _ => UNeg end) (rd a')) (pv_ty a') KExec (pv_tmps a')).
     split.
     { destruct Hu as [-> | ->]; cbn [lower_unop]; (erewrite bind_OK by reflexivity);
       rewrite simplify_unary_nolit by exact Hnl; (erewrite bind_OK by exact A1); reflexivity. }
-    split. { right. exists (fst t), (snd t). cbn. auto. }
+    split. { right. exists (fst t), (snd t). gp. }
     split. { cbn. auto. }
     intros ms va Sa. destruct (A5 ms va Sa) as [va' [Sa' Ca']].
     destruct (sem_int _ _ _ _ _ A3 Sa') as [x [-> [Hx Ex]]].
     exists (VBv (snd t) (match u with UNot => wrap (snd t) (- x - 1) | _ => wrap (snd t) (- x) end)). split.
     - split.
       + cbn [pv_term fin_pure eval]. unfold rd. rewrite Ex. destruct Hu as [-> | ->]; reflexivity.
-      + cbn [pv_ty]. rewrite A3. apply shape_int. destruct u; apply wrap_range.
-    - cbn [pv_ty]. rewrite A3 in *. cbn [cval_of vt_sg ty_int] in *.
+      + cbn [pv_ty]. rewrite EA3. apply shape_h. destruct u; apply wrap_range.
+    - cbn [pv_ty]. rewrite EA3 in *. cbn [cval_of vt_sg ty_int ty_h] in *.
       assert (Hfa : fst (cval_of (pv_ty a) va) = cty_of (pv_ty a)) by (apply fst_cval_of; apply Sa).
       destruct Hu as [-> | ->]; cbn [c_unop]; rewrite Hfa; fold t; rewrite <- Ca'; unfold mkval, vint; cbn [fst snd];
       change (interp (fst t, snd t)) with (interp t); destruct t as [sg w]; cbn [fst snd]; do 2 f_equal.
@@ -1486,7 +1736,7 @@ Section Correct.
     exists (mkpv (boolop_il_exec "!" (is_boolop cfg a) false (rd a) (rd a)) ty_bool KBoolOp (pv_tmps a)).
     split.
     { cbn [lower_unop]. (erewrite bind_OK by reflexivity). rewrite simplify_unary_lnot. reflexivity. }
-    split. { left. cbn. auto. }
+    split. { left. gp. }
     split. { cbn. auto. }
     intros ms va Sa. exists (VB (negb (truth (cval_of (pv_ty a) va)))). split.
     - split; [|apply shape_bool]. pose proof (cond_ok a ms va Hga Sa) as Ea. unfold cond_of in Ea.
@@ -1504,11 +1754,11 @@ Section Correct.
   Proof. intros [-> | ->]; destruct sg; reflexivity. Qed.
 
   Lemma wrap_norm_lit sg w z : wrap w (norm_lit (ty_int sg w) z) = wrap w z.
-  Proof. unfold norm_lit. cbn [vt_sg vt_w ty_int]. destruct sg; [apply wrap_sval | apply wrap_idem]. Qed.
+  Proof. unfold norm_lit. cbn [vt_sg vt_w ty_int ty_h]. destruct sg; [apply wrap_sval | apply wrap_idem]. Qed.
 
   Lemma norm_lit_interp sg w z : norm_lit (ty_int sg w) z = interp (sg, w) (wrap w z).
   Proof.
-    unfold norm_lit, interp. cbn [vt_sg vt_w ty_int fst snd]. destruct sg; [|rewrite wrap_idem; reflexivity].
+    unfold norm_lit, interp. cbn [vt_sg vt_w ty_int ty_h fst snd]. destruct sg; [|rewrite wrap_idem; reflexivity].
     unfold sval. rewrite wrap_idem. reflexivity.
   Qed.
 
@@ -1530,7 +1780,7 @@ Section Correct.
     forall ms ilv, sem ms p ilv -> cval_of (pv_ty p) ilv = (cty_of (pv_ty p), wrap (snd (cty_of (pv_ty p))) v).
   Proof.
     intros Hli Hk. destruct (Hli v b Hk) as [[_ [sg [w [Hw [Ht [Htm Hn]]]]]] | [_ [Ht [bb [Htm ->]]]]]; rewrite Ht.
-    - unfold cty_of. cbn [vt_bool ty_int vt_sg vt_w fst snd]. split; [exact Hw|]. split; [apply promoted_or_self_wide; auto|].
+    - unfold cty_of. cbn [vt_bool ty_int ty_h vt_sg vt_w fst snd]. split; [exact Hw|]. split; [apply promoted_or_self_wide; auto|].
       split; [exact Hn|]. intros ms ilv [He _]. rewrite Htm in He. cbn [fin_pure eval] in He. injection He as <-. reflexivity.
     - unfold cty_of. cbn [vt_bool ty_bool int_t fst snd]. split; [auto|]. split; [reflexivity|].
       split; [destruct bb; reflexivity|]. intros ms ilv [He _]. rewrite Htm in He. cbn [fin_pure eval] in He. injection He as <-.
@@ -1554,13 +1804,13 @@ Section Correct.
     { destruct Hu as [-> | ->]; cbn [lower_unop]; (erewrite bind_OK by reflexivity);
       unfold simplify_unary; rewrite Hk, Hpr; cbn [fx cfg_fx fx_literals all_fixes];
       (erewrite bind_OK by reflexivity); reflexivity. }
-    split. { right. exists sg, w. cbn. auto. }
+    split. { right. exists sg, w. gp. }
     split. { intros v0 b0 Hk0. cbn in Hk0. injection Hk0 as <- <-. left. split; [reflexivity|]. exists sg, w. cbn.
              repeat split; auto. apply norm_lit_idem. }
     intros ms va Sa. rewrite (Hsem ms va Sa).
     exists (VBv w (wrap w r')). split.
-    - split; [reflexivity|]. cbn [pv_ty]. apply shape_int. apply wrap_range.
-    - cbn [pv_ty cval_of vt_sg ty_int].
+    - split; [reflexivity|]. cbn [pv_ty]. apply shape_h. apply wrap_range.
+    - cbn [pv_ty cval_of vt_sg ty_int ty_h].
       assert (Hp : promote (sg, w) = (sg, w)) by (apply promote_wide; auto).
       unfold r'. rewrite wrap_norm_lit.
       destruct Hu as [-> | ->]; cbn [c_unop fst snd]; rewrite Hp; rewrite vint_conv_lit by auto; cbn [fst snd]; rewrite Hn; reflexivity.
@@ -1598,13 +1848,13 @@ Section Correct.
       rewrite Hka, Hkc; cbn [fx cfg_fx fx_literals all_fixes]; rewrite Hpa, Hpc;
       rewrite c11_vtypes_plain by (apply wide_okw; auto); rewrite ET; cbn [fst snd];
       (erewrite bind_OK by reflexivity); reflexivity. }
-    split. { right. exists sT, wT. cbn. split; [apply wide_okw; auto | auto]. }
+    split. { right. exists sT, wT. gp. apply wide_okw; auto. }
     split. { intros v0 b0 Hk0. cbn in Hk0. injection Hk0 as <- <-. left. split; [reflexivity|]. exists sT, wT. cbn.
              repeat split; auto. apply norm_lit_idem. }
     intros ms ila ilc Sa Sc. rewrite (Hsa ms ila Sa), (Hsc ms ilc Sc).
     exists (VBv wT (wrap wT r')). split.
-    - split; [reflexivity|]. cbn [pv_ty]. apply shape_int. apply wrap_range.
-    - cbn [pv_ty cval_of vt_sg ty_int].
+    - split; [reflexivity|]. cbn [pv_ty]. apply shape_h. apply wrap_range.
+    - cbn [pv_ty cval_of vt_sg ty_int ty_h].
       assert (forall f, c_arith f (sa, wa, wrap wa va) (sc, wc, wrap wc vb) = ((sT, wT), wrap wT (f (nm va) (nm vb)))) as Hc.
       { intros f. unfold c_arith. cbn [fst]. rewrite HaT. rewrite !vint_conv_lit by auto. reflexivity. }
       unfold r'. unfold nm at 1. rewrite wrap_norm_lit.
@@ -1631,7 +1881,7 @@ Section Correct.
       rewrite Hka, Hkc; cbn [fx cfg_fx fx_literals all_fixes]; rewrite Hpa, Hpc;
       rewrite c11_vtypes_plain by (apply wide_okw; auto); rewrite ET; cbn [fst snd];
       (erewrite bind_OK by reflexivity); cbn beta iota; cbn [cmp_fun]; rewrite ?Z.gtb_ltb, ?Z.geb_leb; reflexivity. }
-    split. { left. cbn. auto. }
+    split. { left. gp. }
     split. { intros v0 b0 Hk0. cbn in Hk0. injection Hk0 as <- <-. right. split; [reflexivity|]. split; [reflexivity|].
              eexists. split; reflexivity. }
     intros ms ila ilc Sa Sc. rewrite (Hsa ms ila Sa), (Hsc ms ilc Sc).
@@ -1672,10 +1922,11 @@ Section Correct.
     destruct (vtype_eqb (pv_ty a) (ty_int sg w)) eqn:Eeq.
     - exists a. split; [reflexivity|]. split; [auto|]. split; [auto|].
       intros ms va Sa. exists va. split; [auto|].
-      destruct Hga as [[Ht _] | [s0 [w0 [Hw0 [Ht _]]]]]; rewrite Ht in *.
-      + exfalso. unfold vtype_eqb in Eeq. cbn in Eeq. okw_cases Hw; discriminate.
-      + apply vtype_eqb_int in Eeq. destruct Eeq as [-> ->].
-        destruct (sem_int _ _ _ _ _ Ht Sa) as [z [-> [Hz _]]]. cbn [cval_of vt_sg ty_int].
+      destruct Hga as [[Ht _] | [s0 [w0 [Hw0 [Ht _]]]]].
+      + rewrite Ht in Eeq. exfalso. unfold vtype_eqb in Eeq. cbn in Eeq. okw_cases Hw; discriminate.
+      + destruct (ity_inv _ _ _ Ht) as [h0 E]. rewrite E in Eeq.
+        apply (vtype_eqb_h h0 s0 w0 false sg w) in Eeq. destruct Eeq as [-> ->].
+        destruct (sem_int _ _ _ _ _ Ht Sa) as [z [-> [Hz _]]]. rewrite (cval_of_ity _ sg w z Ht).
         symmetry. apply (conv_same ((sg, w), z)). split; auto.
     - (erewrite bind_OK by exact A1). exists a'. split; [reflexivity|]. auto.
   Qed.
@@ -1712,13 +1963,13 @@ Section Correct.
   Lemma gcc_match_skip p (X : string -> M unit) : goodpv p ->
     (match pv_kind p with KTmp n true => X n | _ => ret tt end) = ret tt.
   Proof.
-    intros [[_ Hk] | [sg [w [_ [_ Hk]]]]];
+    intros [[_ [Hk _]] | [sg [w [_ [_ [Hk _]]]]]];
     destruct (pv_kind p) as [? [|]| | | | |? [|] | | |]; cbn in Hk; try contradiction; reflexivity.
   Qed.
 
   Lemma fold_cond_nolit p : goodpv p -> ~ islit p -> fold_cond p = None.
   Proof.
-    unfold fold_cond, islit. intros [[_ Hk] | [sg [w [_ [_ Hk]]]]] Hn;
+    unfold fold_cond, islit. intros [[_ [Hk _]] | [sg [w [_ [_ [Hk _]]]]]] Hn;
     destruct (pv_kind p) as [? [|]| | | | |? [|] | | |]; cbn in Hk; try contradiction; try reflexivity; exfalso; apply Hn; exact I.
   Qed.
 
@@ -1732,6 +1983,7 @@ Section Correct.
   Proof.
     intros Hgc Hgt Hgf Hnl.
     destruct (prep_ok pt pf st Hgt Hgf) as [a' [c' [H1 [Ga' [Gc' [Ta' [Tc' [Hw H2]]]]]]]].
+    destruct (ity_inv _ _ _ Ta') as [ha' Ea']. destruct (ity_inv _ _ _ Tc') as [hc' Ec'].
     set (t := arith_ty (cty_of (pv_ty pt)) (cty_of (pv_ty pf))) in *.
     exists (mkpv (PIte (cond_of cfg pc) (rd a') (rd c')) (pv_ty a') KExec (pv_tmps pc ++ pv_tmps a' ++ pv_tmps c')).
     split.
@@ -1740,7 +1992,7 @@ Section Correct.
       rewrite !gcc_match_skip by auto.
       (erewrite bind_OK by reflexivity). (erewrite bind_OK by reflexivity).
       cbn [fx cfg_fx fx_cmp_promote all_fixes]. (erewrite bind_OK by exact H1). reflexivity. }
-    split. { right. exists (fst t), (snd t). cbn. auto. }
+    split. { right. exists (fst t), (snd t). gp. rewrite (goodpv_tmps pc Hgc), (goodpv_tmps2 a' c' Ga' Gc'). reflexivity. }
     split. { cbn. auto. }
     intros ms vc vt vf Sc St Sf.
     destruct (H2 ms vt vf St Sf) as [va' [vc' [Sa' [Sc' [Ca' Cc']]]]].
@@ -1750,8 +2002,8 @@ Section Correct.
     - split.
       + cbn [pv_term fin_pure eval]. unfold rd. rewrite Ec, Ex, Ey. cbn [sort_of_val sort_eqb]. rewrite N.eqb_refl.
         destruct (truth (cval_of (pv_ty pc) vc)); reflexivity.
-      + cbn [pv_ty]. rewrite Ta'. apply shape_int. destruct (truth (cval_of (pv_ty pc) vc)); auto.
-    - cbn [pv_ty]. rewrite Ta' in *. rewrite Tc' in *. cbn [cval_of vt_sg ty_int] in *.
+      + cbn [pv_ty]. rewrite Ea'. apply shape_h. destruct (truth (cval_of (pv_ty pc) vc)); auto.
+    - cbn [pv_ty]. rewrite Ea' in *. rewrite Ec' in *. cbn [cval_of vt_sg ty_int ty_h] in *.
       destruct (truth (cval_of (pv_ty pc) vc)); [rewrite <- Ca' | rewrite <- Cc']; reflexivity.
   Qed.
 
@@ -1762,6 +2014,8 @@ Section Correct.
   (* ... and CSem's sub-routine table gives it no body (only the lemma about sizeof uses this) *)
   Hypothesis Hcsub : csub_ext csub.
   Variable xi : string -> bool -> option (regop * N).
+  (* (the C semantics knows the explicit registers of the fragment: ExprCorrect.xi_ok) *)
+  Hypothesis Hxi : xi_ok xi.
 
   (* over-approximation of "lowers to a literal (KLit)" *)
   Definition folding_opb (b : Ast.binop) : bool :=
@@ -1805,6 +2059,8 @@ Section Correct.
   | pf_imm l : IM l = true -> pfrag V (EOp (OImm l))      (* siV uiV riV ... *)
   | pf_alias name new :                      (* HEX_REG_ALIAS_USR, HEX_REG_ALIAS_LC0_NEW ... (not the program counter) *)
       In name alias_names -> rw (alias_op name new) = alias_w name -> pfrag V (EOp (OAlias name new))
+  | pf_expl name new :                       (* P0 .. P3 (fREAD_P0 ...), R29 R30 R31, and their _NEW forms *)
+      In name expl_names -> rw (expl_op name new) = expl_w name -> pfrag V (EOp (OExplicit name new))
   | pf_pc : pfrag V (EOp (OAlias "PC" false))   (* HEX_REG_ALIAS_PC: read only; emitted as the packet address *)
   | pf_cast ts sg w e : cast_ty ts sg w -> pfrag V e -> pfrag V (ECast ts e)
   | pf_un u e : (u = UNot \/ u = UMinus \/ u = ULNot) -> pfrag V e -> pfrag V (EUn u e)
@@ -1849,8 +2105,10 @@ Section Correct.
   (* the model states the fragment reaches, V being the declared locals: the variable table is V plus the
      immediates read so far, each with its prologue entry; the register table was built by the fragment *)
   Definition lst_ok (V : list (string * option vtype)) (st : lstate) : Prop :=
-    (forall x, IM x = false -> lookup x (st_vars st) = lookup x V) /\
-    (forall l, IM l = true -> lookup l V = None) /\
+    (* (up to the hybrid flag, which the compiler sets on the type of a variable it has applied ++ to; the temporaries
+       h_tmp<n> it declares for ++ are not locals of the behaviour) *)
+    (forall x, IM x = false -> is_htmp x = false -> option_map unhyb_o (lookup x (st_vars st)) = lookup x V) /\
+    (forall l, IM l = true \/ is_htmp l = true -> lookup l V = None) /\
     (forall l, IM l = true ->
        lookup l (st_vars st) = None \/ (lookup l (st_vars st) = Some (Some (imm_ty l)) /\ In (imm_entry l) (st_imms st))) /\
     Forall (fun e => exists l, IM l = true /\ e = imm_entry l /\ lookup l (st_vars st) = Some (Some (imm_ty l))) (st_imms st) /\
@@ -1860,11 +2118,19 @@ Section Correct.
     regs_ok (st_regs st') -> lst_ok V st'.
   Proof. intros [H1 [H2 [H3 [H4 _]]]] Hv Hi Hr. unfold lst_ok. rewrite Hv, Hi. auto. Qed.
 
-  Lemma lst_ok_local V st x t : lst_ok V st -> lookup x V = Some t ->
-    IM x = false /\ lookup x (st_vars st) = Some t.
+  Lemma lst_ok_local V st x sg w : lst_ok V st -> lookup x V = Some (Some (ty_int sg w)) ->
+    IM x = false /\ is_htmp x = false /\ exists t, lookup x (st_vars st) = Some (Some t) /\ ity t sg w.
   Proof.
-    intros [H1 [H2 _]] Hx. destruct (IM x) eqn:Ei; [rewrite (H2 x Ei) in Hx; discriminate Hx|].
-    split; [reflexivity|]. rewrite (H1 x Ei). exact Hx.
+    intros [H1 [H2 _]] Hx. destruct (IM x) eqn:Ei; [rewrite (H2 x (or_introl Ei)) in Hx; discriminate Hx|].
+    destruct (is_htmp x) eqn:Eh; [rewrite (H2 x (or_intror Eh)) in Hx; discriminate Hx|].
+    split; [reflexivity|]. split; [reflexivity|]. specialize (H1 x Ei Eh). rewrite Hx in H1.
+    destruct (lookup x (st_vars st)) as [[t|]|]; try discriminate H1. cbn [option_map unhyb_o] in H1.
+    assert (Hu : unhyb t = ty_int sg w) by congruence.
+    exists t. split; [reflexivity | apply unhyb_ity; exact Hu].
+  Qed.
+  Lemma lst_ok_none V st x : lst_ok V st -> IM x = false -> is_htmp x = false -> lookup x V = None -> lookup x (st_vars st) = None.
+  Proof.
+    intros [H1 _] Hi Hh Hx. specialize (H1 x Hi Hh). rewrite Hx in H1. destruct (lookup x (st_vars st)); [discriminate H1 | reflexivity].
   Qed.
 
   (* CSem's ?: yields the UNCONVERTED arm when exactly one arm has no value (see the report and
@@ -1907,28 +2173,28 @@ Section Correct.
 
   Lemma inv_ident V x sg w : lookup x V = Some (Some (ty_int sg w)) -> okw w -> Inv V (EOp (OIdent x)).
   Proof.
-    intros Hl Hw Vl st Hext Hok. destruct (lst_ok_local Vl st x _ Hok (Hext _ _ Hl)) as [_ Hls].
-    eexists (mkpv (PVarL x) (ty_int sg w) (if String.eqb (substring 0 5 x) "h_tmp" then KTmp x false else KVar x) []), st.
-    split. { cbn [lower_expr lower_operand cfg_params lookup]. unfold bind, get. rewrite Hls. reflexivity. }
+    intros Hl Hw Vl st Hext Hok. destruct (lst_ok_local Vl st x sg w Hok (Hext _ _ Hl)) as [_ [Hh [t [Hls Ht]]]].
+    unfold is_htmp in Hh.
+    eexists (mkpv (PVarL x) t (KVar x) []), st.
+    split. { cbn [lower_expr lower_operand cfg_params lookup]. unfold bind, get. rewrite Hls, Hh. reflexivity. }
     split. { apply st_ext_refl. }
     split. { exact Hok. }
-    assert (Hik : intkind (if String.eqb (substring 0 5 x) "h_tmp" then KTmp x false else KVar x)) by (destruct (String.eqb _ _); exact I).
-    assert (Hnl : ~ islit (mkpv (PVarL x) (ty_int sg w) (if String.eqb (substring 0 5 x) "h_tmp" then KTmp x false else KVar x) [])).
-    { unfold islit. cbn. destruct (String.eqb _ _); auto. }
-    split. { right. exists sg, w. cbn. auto. }
+    assert (Hnl : ~ islit (mkpv (PVarL x) t (KVar x) [])).
+    { unfold islit. cbn. auto. }
+    split. { apply (goodpv_i _ sg w); [exact Hw | exact Ht | exact I | reflexivity]. }
     split. { apply nolit_litinv. auto. }
     split. { intros H. contradiction. }
     intros _ _ cs ms Hrel _. destruct (proj1 Hrel x sg w Hl Hw) as [v [Hc [Hv Hm]]].
     exists (VBv w v). split.
-    - split; [exact Hm | apply shape_int; auto].
+    - split; [exact Hm | apply (shape_ity _ sg w); auto].
     - intros fuel cs' cv Hce _. destruct fuel as [|k]; [discriminate|].
       cbn [ceval operand_lval] in Hce. rewrite Hc in Hce. cbn [read_lval] in Hce. rewrite Hc in Hce.
-      injection Hce as <- <-. auto.
+      injection Hce as <- <-. split; [reflexivity|]. cbn [pv_ty]. rewrite (cval_of_ity _ sg w v Ht). reflexivity.
   Qed.
 
   Lemma norm_lit_fits sg w v : (w = 32%N \/ w = 64%N) -> 0 <= v -> fits (sg, w) v = true -> norm_lit (ty_int sg w) v = v.
   Proof.
-    intros Hw Hv Hf. unfold fits in Hf. unfold norm_lit, sval, wrap. cbn [fst snd vt_sg vt_w ty_int] in *.
+    intros Hw Hv Hf. unfold fits in Hf. unfold norm_lit, sval, wrap. cbn [fst snd vt_sg vt_w ty_int ty_h] in *.
     destruct Hw as [-> | ->]; norm_w; destruct sg; split_ifs; lia.
   Qed.
 
@@ -1939,9 +2205,9 @@ Section Correct.
     exists (mkpv (PBv sg w v) (ty_int sg w) (KLit v false) []).
     eexists.
     split. { cbn [lower_expr lower_operand fx cfg_fx fx_literals all_fixes]. rewrite literal_vtype_eq, Hl. cbn [option_map fst snd]. reflexivity. }
-    split. { unfold st_ext. cbn. repeat split; auto using incl_refl, regs_le_refl. }
+    split. { unfold st_ext. cbn. repeat split; auto using incl_refl, regs_le_refl, N.le_refl. }
     split. { eapply lst_ok_regs; [exact Hok | reflexivity | reflexivity | apply Hok]. }
-    split. { right. exists sg, w. cbn. auto. }
+    split. { right. exists sg, w. gp. }
     split. { intros v0 b0 Hk. cbn in Hk. injection Hk as <- <-. left. split; [reflexivity|]. exists sg, w. cbn.
              repeat split; auto. apply norm_lit_fits; auto. }
     split. { reflexivity. }
@@ -2055,7 +2321,7 @@ Section Correct.
   Qed.
 
   Lemma goodpv_reg n w : okw w -> forall tm, goodpv (mkpv tm (ty_int true w) (KReg n) []).
-  Proof. intros Hw tm. right. exists true, w. cbn. auto. Qed.
+  Proof. intros Hw tm. right. exists true, w. gp. Qed.
   Lemma nolit_reg n w tm : ~ islit (mkpv tm (ty_int true w) (KReg n) []).
   Proof. unfold islit. cbn. auto. Qed.
 
@@ -2075,7 +2341,7 @@ Section Correct.
     - split; [exact Hev|]. cbn [pv_ty]. apply shape_int. apply wrap_range.
     - intros fuel cs' cv Hce _. destruct fuel as [|k]; [discriminate|].
       rewrite (ceval_reg k cs cls letters acc Hc Ha) in Hce. injection Hce as <- <-. split; [reflexivity|].
-      cbn [pv_ty cval_of vt_sg ty_int]. unfold mkval. cbn [snd]. rewrite Hregw, Hrold. reflexivity.
+      cbn [pv_ty cval_of vt_sg ty_int ty_h]. unfold mkval. cbn [snd]. rewrite Hregw, Hrold. reflexivity.
   Qed.
 
   Lemma inv_newreg V cls letters acc : reg_cls true cls -> access_of_letters letters = Some acc ->
@@ -2094,7 +2360,7 @@ Section Correct.
     - split; [exact Hev|]. cbn [pv_ty]. apply shape_int. apply wrap_range.
     - intros fuel cs' cv Hce _. destruct fuel as [|k]; [discriminate|].
       rewrite (ceval_newreg k cs cls letters acc Hc Ha) in Hce. injection Hce as <- <-. split; [reflexivity|].
-      cbn [pv_ty cval_of vt_sg ty_int]. unfold mkval. cbn [snd]. rewrite Hregw, Hrnew0. reflexivity.
+      cbn [pv_ty cval_of vt_sg ty_int ty_h]. unfold mkval. cbn [snd]. rewrite Hregw, Hrnew0. reflexivity.
   Qed.
 
   Lemma ceval_alias k cs name new :
@@ -2120,7 +2386,7 @@ Section Correct.
     split. { cbn [lower_expr]. exact L. }
     split; [exact Hx|]. split; [eapply lst_ok_regs; eassumption|].
     assert (Hg : goodpv (mkpv (PRaw ("$reg:" +++ alias_tname name new)) (ty_int false (alias_w name)) (KReg (alias_tname name new)) [])).
-    { right. exists false, (alias_w name). cbn. auto. }
+    { right. exists false, (alias_w name). gp. }
     assert (Hnl : ~ islit (mkpv (PRaw ("$reg:" +++ alias_tname name new)) (ty_int false (alias_w name)) (KReg (alias_tname name new)) [])).
     { unfold islit. cbn. auto. }
     split; [exact Hg|]. split; [apply nolit_litinv; exact Hnl|]. split; [intros H; contradiction|].
@@ -2132,7 +2398,64 @@ Section Correct.
       + cbn [pv_ty]. apply shape_int. apply wrap_range.
     - intros fuel cs' cv Hce _. destruct fuel as [|k]; [discriminate|].
       rewrite (ceval_alias k cs name new) in Hce. injection Hce as <- <-. split; [reflexivity|].
-      cbn [pv_ty cval_of vt_sg ty_int]. unfold mkval. cbn [snd]. rewrite Hregw, Hrold, Hrnew0, (alias_not_pc name Hin). reflexivity.
+      cbn [pv_ty cval_of vt_sg ty_int ty_h]. unfold mkval. cbn [snd]. rewrite Hregw, Hrold, Hrnew0, (alias_not_pc name Hin). reflexivity.
+  Qed.
+
+  (* an explicit register: READ_REG(EXPLICIT2OP(n, class, new), b) *)
+  Lemma fin_expl_read regs name new ri : In name expl_names ->
+    regs_ok regs -> lookup_reg_info (expl_tname name new) regs = Some ri -> regs_le regs R -> norem rem ->
+    exists b, fin (PRaw ("$reg:" +++ expl_tname name new)) = PReg (expl_op name new) b /\ (new = true -> b = true).
+  Proof.
+    intros Hin Hr Hl Hle Hrem. cbn [fin_pure]. rewrite reg_name_of_reg. unfold reg_read.
+    destruct (Hle _ _ Hl) as [ri' [L' [O' [P' [N' _]]]]]. rewrite L', Hrem.
+    destruct (entry_expl _ _ name new (Hr _ _ Hl) Hin eq_refl) as [nm [nw [Hin' [Hn [Ho [_ [Hp Hnw]]]]]]].
+    destruct (expl_tname_inj _ _ _ _ Hin Hin' Hn) as [<- <-].
+    rewrite P', Hp, O', Ho, N', Hnw. destruct (write_only (r_acc ri')); eexists; (split; [reflexivity|]); auto.
+  Qed.
+  Lemma read_reg_expl ms name new b : In name expl_names -> (new = true -> b = true) ->
+    read_reg rw ms (expl_op name new) b =
+    VBv (rw (expl_op name new))
+        (wrap (rw (expl_op name new))
+              (match lookup_reg (expl_op name new) (rnew ms) with
+               | Some v => v
+               | None => if new then rnew0 ms (expl_op name new) else rold ms (expl_op name new) end)).
+  Proof.
+    intros Hin Hb. destruct (expl_facts name new Hin) as [_ [Hx _]].
+    destruct (expl_op name new) as [| n c nw | | |]; try discriminate Hx. cbn [is_rexpl] in Hx. apply eqb_prop in Hx. subst nw.
+    unfold read_reg. cbn [regop_is_new regop_dest_only].
+    destruct new; [rewrite (Hb eq_refl); reflexivity|]. destruct b; reflexivity.
+  Qed.
+  Lemma ceval_expl k cs name new : In name expl_names ->
+    ceval E csub xi (S k) cs (EOp (OExplicit name new)) =
+    Some (cs, mkval (true, expl_w name)
+                (match lookup_reg (expl_op name new) (cs_regw cs) with
+                 | Some v => v
+                 | None => if new then ce_rnew0 E (expl_op name new) else ce_rold E (expl_op name new) end)).
+  Proof.
+    intros Hin. cbn [ceval operand_lval]. rewrite (Hxi name new Hin), (proj1 (expl_facts name new Hin)). cbn [read_lval].
+    destruct (lookup_reg _ (cs_regw cs)); reflexivity.
+  Qed.
+  Lemma inv_expl V name new : In name expl_names -> rw (expl_op name new) = expl_w name -> Inv V (EOp (OExplicit name new)).
+  Proof.
+    intros Hin Hrw Vl st Hext Hok. destruct (expl_facts name new Hin) as [_ [_ Hw]].
+    destruct (lower_expl_ok cfg name new st Hin (proj2 (proj2 (proj2 (proj2 Hok))))) as [st' [L [Hv [Hi [Hx [Hr [_ [ri Hl]]]]]]]].
+    eexists _, st'.
+    split. { cbn [lower_expr]. exact L. }
+    split; [exact Hx|]. split; [eapply lst_ok_regs; eassumption|].
+    assert (Hg : goodpv (mkpv (PRaw ("$reg:" +++ expl_tname name new)) (ty_int true (expl_w name)) (KReg (expl_tname name new)) [])).
+    { right. exists true, (expl_w name). gp. }
+    assert (Hnl : ~ islit (mkpv (PRaw ("$reg:" +++ expl_tname name new)) (ty_int true (expl_w name)) (KReg (expl_tname name new)) [])).
+    { unfold islit. cbn. auto. }
+    split; [exact Hg|]. split; [apply nolit_litinv; exact Hnl|]. split; [intros H; contradiction|].
+    intros HR Hrem cs ms Hrel _. destruct Hrel as [_ [Hregw [Hrold [Hrnew0 _]]]].
+    destruct (fin_expl_read (st_regs st') name new ri Hin Hr Hl HR Hrem) as [b [Hfin Hb]].
+    eexists. split.
+    - split.
+      + cbn [pv_term]. rewrite Hfin. cbn [eval]. rewrite (read_reg_expl ms name new b Hin Hb), Hrw. reflexivity.
+      + cbn [pv_ty]. apply shape_int. apply wrap_range.
+    - intros fuel cs' cv Hce _. destruct fuel as [|k]; [discriminate|].
+      rewrite (ceval_expl k cs name new Hin) in Hce. injection Hce as <- <-. split; [reflexivity|].
+      cbn [pv_ty cval_of vt_sg ty_int ty_h]. unfold mkval. cbn [snd]. rewrite Hregw, Hrold, Hrnew0. reflexivity.
   Qed.
 
   (* the program counter: as long as the behaviour does not write the alias, its reads are the packet address *)
@@ -2154,7 +2477,7 @@ Section Correct.
     split. { cbn [lower_expr]. exact L. }
     split; [exact Hx|]. split; [eapply lst_ok_regs; eassumption|].
     assert (Hg : goodpv (mkpv (PRaw ("$reg:" +++ "pc")) (ty_int false 32) (KReg "pc") [])).
-    { right. exists false, 32%N. cbn. auto. }
+    { right. exists false, 32%N. gp. }
     assert (Hnl : ~ islit (mkpv (PRaw ("$reg:" +++ "pc")) (ty_int false 32) (KReg "pc") [])).
     { unfold islit. cbn. auto. }
     split; [exact Hg|]. split; [apply nolit_litinv; exact Hnl|]. split; [intros H; contradiction|].
@@ -2166,7 +2489,7 @@ Section Correct.
     - intros fuel cs' cv Hce _. destruct fuel as [|k]; [discriminate|].
       cbn [ceval operand_lval read_lval] in Hce. change (RAlias ("HEX_REG_ALIAS_" ++ "PC")%string false) with pc_op in Hce.
       rewrite Hpc in Hce. cbn [option_map String.eqb Ascii.eqb Bool.eqb] in Hce. injection Hce as <- <-. split; [reflexivity|].
-      cbn [pv_ty cval_of vt_sg ty_int]. unfold mkval, alias_width. cbn [snd existsb String.eqb Ascii.eqb Bool.eqb orb]. rewrite Hpk. reflexivity.
+      cbn [pv_ty cval_of vt_sg ty_int ty_h]. unfold mkval, alias_width. cbn [snd existsb String.eqb Ascii.eqb Bool.eqb orb]. rewrite Hpk. reflexivity.
   Qed.
 
   (* ------------------------------------------------------------------ immediates *)
@@ -2185,7 +2508,7 @@ Section Correct.
     - eexists.
       split. { cbn [lower_operand]. unfold bind, get. rewrite Hn. unfold put, ret. reflexivity. }
       split. { unfold st_ext. cbn [st_pending st_hcount st_imms st_removed st_nonempty st_regs].
-               repeat split; auto using regs_le_refl. apply incl_appl, incl_refl. }
+               repeat split; auto using regs_le_refl, N.le_refl. apply incl_appl, incl_refl. }
       split.
       { unfold lst_ok. cbn [st_vars st_imms st_regs]. split; [|split; [exact H2|split; [|split; [|exact H5]]]].
         - intros x Hx. rewrite lookup_snoc_other; [apply H1; exact Hx|].
@@ -2210,7 +2533,7 @@ Section Correct.
   Proof.
     intros Hl Vl st Hext Hok. pose proof Hok as [H1 [H2 [H3 [H4 H5]]]].
     assert (Hg : goodpv (mkpv (PVarL l) (imm_ty l) (KVar l) [])).
-    { right. exists (imm_signed l), 32%N. cbn. auto. }
+    { right. exists (imm_signed l), 32%N. gp. }
     assert (Hnl : ~ islit (mkpv (PVarL l) (imm_ty l) (KVar l) [])) by (unfold islit; cbn; auto).
     assert (Hsem : forall st', In (imm_entry l) (st_imms st') -> semok V (EOp (OImm l)) (mkpv (PVarL l) (imm_ty l) (KVar l) []) st').
     { intros st' Hin _ _ cs ms Hrel Himm. destruct Hrel as [_ [_ [_ [_ [Himms [Hcn _]]]]]].
@@ -2218,14 +2541,14 @@ Section Correct.
       - split; [exact (Himm l Hl Hin) | apply shape_int; exact (Hcn l Hl)].
       - intros fuel cs' cv Hce _. destruct fuel as [|k]; [discriminate|].
         cbn [ceval operand_lval read_lval] in Hce. change ("imm:" ++ l)%string with ("imm:" +++ l) in Hce.
-        cbn [pv_ty cval_of imm_ty vt_sg ty_int]. unfold cimm, imm_signed.
+        cbn [pv_ty cval_of imm_ty vt_sg ty_int ty_h]. unfold cimm, imm_signed.
         destruct (lookup ("imm:" +++ l) (cs_vars cs)) as [[t0 [v0|]]|]; injection Hce as <- <-; split; reflexivity. }
     destruct (H3 l Hl) as [Hn | [Hs Hin]].
     - (* first read: the immediate is declared and its prologue entry created *)
       eexists (mkpv (PVarL l) (imm_ty l) (KVar l) []), _.
       split. { cbn [lower_expr lower_operand]. unfold bind, get. rewrite Hn. unfold put, ret. reflexivity. }
       split. { unfold st_ext. cbn [st_pending st_hcount st_imms st_removed st_nonempty st_regs].
-               repeat split; auto using regs_le_refl. apply incl_appl, incl_refl. }
+               repeat split; auto using regs_le_refl, N.le_refl. apply incl_appl, incl_refl. }
       split.
       { unfold lst_ok. cbn [st_vars st_imms st_regs]. split; [|split; [exact H2|split; [|split; [|exact H5]]]].
         - intros x Hx. rewrite lookup_snoc_other; [apply H1; exact Hx|].
@@ -2496,17 +2819,17 @@ Section Correct.
   Proof.
     intros Hts Hlw IH Vl st Hext Hok.
     destruct (IH Vl st Hext Hok) as [pa [st1 [L1 [S1 [K1 [Ga [_ [_ Hsem]]]]]]]].
-    destruct (addr_ok pa st1 Ga) as [va [A1 A2]].
+    destruct (addr_ok pa st1 Ga) as [va [A1 [At A2]]].
     destruct (cast_ty_ok ts sg w (touched st1) Hts) as [R1 [Rc Hw]].
-    destruct (init_a_cast_tok_ok sg w lsg lw (PLoad lw (rd va)) KExec (pv_tmps va) (touched st1) Hw Hlw) as [r [C1 [C2 [C3 [C4 C5]]]]].
+    destruct (init_a_cast_tok_ok sg w lsg lw (PLoad lw (rd va)) KExec (touched st1) Hw Hlw) as [r [C1 [C2 [C3 [C4 C5]]]]].
     exists r, (touched st1).
     split.
     { rewrite lower_expr_cast, lower_expr_load, lower_exprs_one.
       unfold bind at 1. unfold bind at 1. unfold bind at 1. rewrite L1.
       unfold bind at 1. unfold ret at 1. unfold ret at 1. cbv beta iota.
-      unfold load_tail. unfold bind at 1. rewrite A1. unfold bind at 1. rewrite touch_eq. unfold ret at 1.
+      unfold load_tail. unfold bind at 1. rewrite A1. unfold bind at 1. rewrite touch_eq. unfold ret at 1. rewrite At.
       unfold lower_cast. (erewrite bind_OK by exact R1). (erewrite bind_OK by reflexivity).
-      unfold ty_eq. cbn [pv_ty is_numeric ty_tok ty_int vt_void vt_ext negb andb].
+      unfold ty_eq. cbn [pv_ty is_numeric ty_tok ty_int ty_h vt_void vt_ext negb andb].
       (erewrite bind_OK by reflexivity).
       assert (vtype_eqb (ty_tok lsg lw) (ty_int sg w) = false) as -> by reflexivity.
       (erewrite bind_OK by exact C1). reflexivity. }
@@ -2564,43 +2887,43 @@ Section Correct.
 
   Lemma mac_tail1_ok m rz rsg rww xw px st :
     In (mkmac m rz (ty_int rsg rww) [ty_int false xw]) std_macs -> okw xw -> goodpv px ->
-    exists x' tm, mac_tail m [IPure px] st = OK (IPure (mkpv (PApp rz [rd x']) (ty_int rsg rww) KMacro tm), touched st) /\
+    exists x', mac_tail m [IPure px] st = OK (IPure (mkpv (PApp rz [rd x']) (ty_int rsg rww) KMacro []), touched st) /\
       argsem (false, xw) px x'.
   Proof.
     intros Hin Hxw Gx. unfold mac_tail. rewrite (find_mac_std _ Hin : find_mac cfg m = _). cbn [mac_params mac_rz mac_ret].
-    destruct (lower_args_cons px [] false xw [] [] [] st Hxw Gx eq_refl) as [x' [Lx Sx]].
-    exists x'. eexists. split; [|exact Sx].
+    destruct (lower_args_cons px [] false xw [] [] [] st Hxw Gx eq_refl) as [x' [Lx [Tx Sx]]]. rewrite Tx in Lx.
+    exists x'. split; [|exact Sx].
     unfold bind at 1. rewrite Lx. cbv beta iota. unfold bind at 1. rewrite touch_eq. reflexivity.
   Qed.
 
   Lemma mac_tail3_ok m rz rsg rww xw px ps pl st :
     In (mkmac m rz (ty_int rsg rww) [ty_int false xw; ty_int true 32; ty_int true 32]) std_macs -> okw xw ->
     goodpv px -> goodpv ps -> goodpv pl ->
-    exists x' s' l' tm, mac_tail m [IPure px; IPure ps; IPure pl] st =
-        OK (IPure (mkpv (PApp rz [rd x'; rd s'; rd l']) (ty_int rsg rww) KMacro tm), touched st) /\
+    exists x' s' l', mac_tail m [IPure px; IPure ps; IPure pl] st =
+        OK (IPure (mkpv (PApp rz [rd x'; rd s'; rd l']) (ty_int rsg rww) KMacro []), touched st) /\
       argsem (false, xw) px x' /\ argsem i32_t ps s' /\ argsem i32_t pl l'.
   Proof.
     intros Hin Hxw Gx Gs Gl. unfold mac_tail. rewrite (find_mac_std _ Hin : find_mac cfg m = _). cbn [mac_params mac_rz mac_ret].
-    destruct (lower_args_cons pl [] true 32 [] [] [] st okw32 Gl eq_refl) as [l' [Ll Sl]].
-    destruct (lower_args_cons ps _ true 32 _ _ _ st okw32 Gs Ll) as [s' [Ls Ss]].
-    destruct (lower_args_cons px _ false xw _ _ _ st Hxw Gx Ls) as [x' [Lx Sx]].
-    exists x', s', l'. eexists. split; [|split; [exact Sx | split; [exact Ss | exact Sl]]].
+    destruct (lower_args_cons pl [] true 32 [] [] [] st okw32 Gl eq_refl) as [l' [Ll [Tl Sl]]]. rewrite Tl in Ll. cbn [app] in Ll.
+    destruct (lower_args_cons ps _ true 32 _ _ _ st okw32 Gs Ll) as [s' [Ls [Ts Ss]]]. rewrite Ts in Ls. cbn [app] in Ls.
+    destruct (lower_args_cons px _ false xw _ _ _ st Hxw Gx Ls) as [x' [Lx [Tx Sx]]]. rewrite Tx in Lx. cbn [app] in Lx.
+    exists x', s', l'. split; [|split; [exact Sx | split; [exact Ss | exact Sl]]].
     unfold bind at 1. rewrite Lx. cbv beta iota. unfold bind at 1. rewrite touch_eq. reflexivity.
   Qed.
 
   Lemma mac_tail4_ok m rz rsg rww xw px ps pl pf st :
     In (mkmac m rz (ty_int rsg rww) [ty_int false xw; ty_int true 32; ty_int true 32; ty_int false xw]) std_macs -> okw xw ->
     goodpv px -> goodpv ps -> goodpv pl -> goodpv pf ->
-    exists x' s' l' f' tm, mac_tail m [IPure px; IPure ps; IPure pl; IPure pf] st =
-        OK (IPure (mkpv (PApp rz [rd x'; rd s'; rd l'; rd f']) (ty_int rsg rww) KMacro tm), touched st) /\
+    exists x' s' l' f', mac_tail m [IPure px; IPure ps; IPure pl; IPure pf] st =
+        OK (IPure (mkpv (PApp rz [rd x'; rd s'; rd l'; rd f']) (ty_int rsg rww) KMacro []), touched st) /\
       argsem (false, xw) px x' /\ argsem i32_t ps s' /\ argsem i32_t pl l' /\ argsem (false, xw) pf f'.
   Proof.
     intros Hin Hxw Gx Gs Gl Gf. unfold mac_tail. rewrite (find_mac_std _ Hin : find_mac cfg m = _). cbn [mac_params mac_rz mac_ret].
-    destruct (lower_args_cons pf [] false xw [] [] [] st Hxw Gf eq_refl) as [f' [Lf Sf]].
-    destruct (lower_args_cons pl _ true 32 _ _ _ st okw32 Gl Lf) as [l' [Ll Sl]].
-    destruct (lower_args_cons ps _ true 32 _ _ _ st okw32 Gs Ll) as [s' [Ls Ss]].
-    destruct (lower_args_cons px _ false xw _ _ _ st Hxw Gx Ls) as [x' [Lx Sx]].
-    exists x', s', l', f'. eexists. split; [|split; [exact Sx | split; [exact Ss | split; [exact Sl | exact Sf]]]].
+    destruct (lower_args_cons pf [] false xw [] [] [] st Hxw Gf eq_refl) as [f' [Lf [Tf Sf]]]. rewrite Tf in Lf. cbn [app] in Lf.
+    destruct (lower_args_cons pl _ true 32 _ _ _ st okw32 Gl Lf) as [l' [Ll [Tl Sl]]]. rewrite Tl in Ll. cbn [app] in Ll.
+    destruct (lower_args_cons ps _ true 32 _ _ _ st okw32 Gs Ll) as [s' [Ls [Ts Ss]]]. rewrite Ts in Ls. cbn [app] in Ls.
+    destruct (lower_args_cons px _ false xw _ _ _ st Hxw Gx Ls) as [x' [Lx [Tx Sx]]]. rewrite Tx in Lx. cbn [app] in Lx.
+    exists x', s', l', f'. split; [|split; [exact Sx | split; [exact Ss | split; [exact Sl | exact Sf]]]].
     unfold bind at 1. rewrite Lx. cbv beta iota. unfold bind at 1. rewrite touch_eq. reflexivity.
   Qed.
 
@@ -2683,16 +3006,16 @@ Section Correct.
     destruct (ceval E csub xi k s3 f) as [[s4 vf]|]; reflexivity.
   Qed.
 
-  Lemma goodpv_mac tm sg w tmps : okw w -> goodpv (mkpv tm (ty_int sg w) KMacro tmps) /\ ~ islit (mkpv tm (ty_int sg w) KMacro tmps).
-  Proof. intros Hw. split; [right; exists sg, w; cbn; auto | unfold islit; cbn; auto]. Qed.
+  Lemma goodpv_mac tm sg w : okw w -> goodpv (mkpv tm (ty_int sg w) KMacro []) /\ ~ islit (mkpv tm (ty_int sg w) KMacro []).
+  Proof. intros Hw. split; [right; exists sg, w; gp | unfold islit; cbn; auto]. Qed.
 
   Lemma inv_mac1 V m x : is_mac1 m -> Inv V x -> Inv V (EMacro m (ECons x ENil)).
   Proof.
     intros Hm IHx Vl st Hext Hok.
     destruct (mac1_spec m Hm) as [rz [rsg [rww [xw [Hin [Hxw [Hrw Hagree]]]]]]].
     destruct (IHx Vl st Hext Hok) as [px [st1 [L1 [S1 [K1 [Gx [_ [_ Hsemx]]]]]]]].
-    destruct (mac_tail1_ok m rz rsg rww xw px st1 Hin Hxw Gx) as [x' [tm [T1 Ax]]].
-    destruct (goodpv_mac (PApp rz [rd x']) rsg rww tm Hrw) as [Gr Nr].
+    destruct (mac_tail1_ok m rz rsg rww xw px st1 Hin Hxw Gx) as [x' [T1 Ax]].
+    destruct (goodpv_mac (PApp rz [rd x']) rsg rww Hrw) as [Gr Nr].
     eexists _, (touched st1).
     split. { rewrite lower_expr_macro, lower_exprs_cons, lower_exprs_nil. unfold bind at 1. unfold bind at 1. rewrite L1.
              unfold bind at 1. unfold ret at 1 2. exact T1. }
@@ -2722,8 +3045,8 @@ Section Correct.
     destruct (IHx Vl st Hext Hok) as [px [st1 [L1 [S1 [K1 [Gx [_ [_ Hsemx]]]]]]]].
     destruct (IHs Vl st1 Hext K1) as [ps [st2 [L2 [S2 [K2 [Gs [_ [_ Hsems]]]]]]]].
     destruct (IHl Vl st2 Hext K2) as [pl [st3 [L3 [S3 [K3 [Gl [_ [_ Hseml]]]]]]]].
-    destruct (mac_tail3_ok m rz rsg rww xw px ps pl st3 Hin Hxw Gx Gs Gl) as [x' [s' [l' [tm [T1 [Ax [As Al]]]]]]].
-    destruct (goodpv_mac (PApp rz [rd x'; rd s'; rd l']) rsg rww tm Hrw) as [Gr Nr].
+    destruct (mac_tail3_ok m rz rsg rww xw px ps pl st3 Hin Hxw Gx Gs Gl) as [x' [s' [l' [T1 [Ax [As Al]]]]]].
+    destruct (goodpv_mac (PApp rz [rd x'; rd s'; rd l']) rsg rww Hrw) as [Gr Nr].
     eexists _, (touched st3).
     split. { rewrite lower_expr_macro, !lower_exprs_cons, lower_exprs_nil.
              unfold bind at 1. unfold bind at 1. rewrite L1. unfold bind at 1. unfold bind at 1. rewrite L2.
@@ -2762,8 +3085,8 @@ Section Correct.
     destruct (IHs Vl st1 Hext K1) as [ps [st2 [L2 [S2 [K2 [Gs [_ [_ Hsems]]]]]]]].
     destruct (IHl Vl st2 Hext K2) as [pl [st3 [L3 [S3 [K3 [Gl [_ [_ Hseml]]]]]]]].
     destruct (IHf Vl st3 Hext K3) as [pf [st4 [L4 [S4 [K4 [Gf [_ [_ Hsemf]]]]]]]].
-    destruct (mac_tail4_ok m rz rsg rww xw px ps pl pf st4 Hin Hxw Gx Gs Gl Gf) as [x' [s' [l' [f' [tm [T1 [Ax [As [Al Af]]]]]]]]].
-    destruct (goodpv_mac (PApp rz [rd x'; rd s'; rd l'; rd f']) rsg rww tm Hrw) as [Gr Nr].
+    destruct (mac_tail4_ok m rz rsg rww xw px ps pl pf st4 Hin Hxw Gx Gs Gl Gf) as [x' [s' [l' [f' [T1 [Ax [As [Al Af]]]]]]]].
+    destruct (goodpv_mac (PApp rz [rd x'; rd s'; rd l'; rd f']) rsg rww Hrw) as [Gr Nr].
     eexists _, (touched st4).
     split. { rewrite lower_expr_macro, !lower_exprs_cons, lower_exprs_nil.
              unfold bind at 1. unfold bind at 1. rewrite L1. unfold bind at 1. unfold bind at 1. rewrite L2.
@@ -2830,13 +3153,13 @@ Section Correct.
     set (sz := Z.of_N ((vt_w (pv_ty pa) + 7) / 8)).
     assert (Hsz : 0 <= sz < 2147483648).
     { unfold sz. destruct Ga as [[Ht _] | [s0 [w0 [Hw0 [Ht _]]]]]; rewrite Ht; [vm_compute; split; [discriminate | reflexivity]|].
-      cbn [vt_w ty_int]. okw_cases Hw0; vm_compute; split; try discriminate; reflexivity. }
+      cbn [vt_w ty_int ty_h]. okw_cases Hw0; vm_compute; split; try discriminate; reflexivity. }
     exists (mkpv (PBv true 32 sz) (ty_int true 32) (KLit sz false) []), st1.
     split. { apply lower_expr_sizeof; [|exact Ga]. rewrite lower_exprs_cons, lower_exprs_nil. unfold bind. rewrite L1. reflexivity. }
     split; [exact S1|]. split; [exact K1|].
-    split. { right. exists true, 32%N. cbn. auto. }
+    split. { right. exists true, 32%N. gp. }
     split. { intros v0 b0 Hk. cbn in Hk. injection Hk as <- <-. left. split; [reflexivity|]. exists true, 32%N. cbn [pv_ty pv_term].
-             repeat split; auto. unfold norm_lit, sval, wrap. cbn [vt_sg vt_w ty_int]. norm_w. split_ifs; lia. }
+             repeat split; auto. unfold norm_lit, sval, wrap. cbn [vt_sg vt_w ty_int ty_h]. norm_w. split_ifs; lia. }
     split. { intros _. reflexivity. }
     intros _ _ cs ms _ _. exists (VBv 32 (wrap 32 sz)). split.
     - split; [reflexivity | apply shape_int; apply wrap_range].
@@ -2853,6 +3176,7 @@ Section Correct.
     - eapply inv_newreg; eauto.
     - apply inv_imm; auto.
     - apply inv_alias; auto.
+    - apply inv_expl; auto.
     - apply inv_pc.
     - eapply inv_cast; eauto.
     - apply inv_un; auto.
@@ -2874,22 +3198,19 @@ End Correct.
 Definition shape_pv (pv : pval) (ilv : val) : Prop :=
   if vt_bool (pv_ty pv) then exists b, ilv = VB b
   else exists z, ilv = VBv (vt_w (pv_ty pv)) z /\ 0 <= z < pow2 (vt_w (pv_ty pv)) /\
-                 pv_ty pv = ty_int (vt_sg (pv_ty pv)) (vt_w (pv_ty pv)) /\ okw (vt_w (pv_ty pv)).
+                 ity (pv_ty pv) (vt_sg (pv_ty pv)) (vt_w (pv_ty pv)) /\ okw (vt_w (pv_ty pv)).
 Definition agrees (pv : pval) (cv : cval) (ilv : val) : Prop :=
   match ilv with
   | VB b => cv = ((true, 32%N), if b then 1 else 0)
   | VBv _ z => cv = ((vt_sg (pv_ty pv), vt_w (pv_ty pv)), z)
   end.
 
-(* the initial model state, and any state whose table holds declared locals only, are states of the fragment *)
-Lemma lst_ok_plain IM V st : st_vars st = V -> (forall l, IM l = true -> lookup l V = None) ->
-  st_imms st = [] -> regs_ok (st_regs st) -> lst_ok IM V st.
-Proof.
-  intros HV Hn Hi Hr. unfold lst_ok. rewrite HV, Hi.
-  split; [reflexivity|]. split; [exact Hn|]. split; [intros l Hl; left; apply Hn; exact Hl|]. split; [constructor | exact Hr].
-Qed.
+(* the initial model state is a state of the fragment *)
 Lemma lst_ok_init IM cfg : lst_ok IM [] (init_state cfg).
-Proof. apply lst_ok_plain; [reflexivity | reflexivity | reflexivity | apply regs_ok_nil]. Qed.
+Proof.
+  unfold lst_ok. cbn [init_state st_vars st_imms st_regs lookup].
+  split; [reflexivity|]. split; [reflexivity|]. split; [intros l Hl; left; reflexivity|]. split; [constructor | apply regs_ok_nil].
+Qed.
 
 (* the lowering does not depend on the table R the result is later finalised against: the existential
    witnesses of a statement proved for every R can be chosen before R *)
@@ -2902,7 +3223,7 @@ Proof.
 Qed.
 
 Theorem expr_correct : forall (cfg : config) (rw : regwidth) (IM : string -> bool) (E : cenv) (csub : csubs) xi V e st,
-  cfg_fx cfg = all_fixes -> cfg_params cfg = [] -> macs_std (cfg_macros cfg) -> subs_ext (cfg_subs cfg) -> csub_ext csub ->
+  cfg_fx cfg = all_fixes -> cfg_params cfg = [] -> macs_std (cfg_macros cfg) -> subs_ext (cfg_subs cfg) -> csub_ext csub -> xi_ok xi ->
   lst_ok IM V st -> pfrag rw IM V e ->
   exists pv st', lower_expr cfg e st = OK (IPure pv, st') /\ st_ext st st' /\ lst_ok IM V st' /\
     forall R rem, regs_le (st_regs st') R -> norem rem ->
@@ -2911,7 +3232,7 @@ Theorem expr_correct : forall (cfg : config) (rw : regwidth) (IM : string -> boo
         forall fuel cs' cv, ceval E csub xi fuel cs e = Some (cs', cv) -> arms_ok fuel cs e ->
           cs' = cs /\ agrees pv cv ilv.
 Proof.
-  intros cfg rw IM E csub xi V e st Hfx Hpar Hmacs Hsubs Hcsub Hok Hfrag.
+  intros cfg rw IM E csub xi V e st Hfx Hpar Hmacs Hsubs Hcsub Hxi Hok Hfrag.
   destruct cfg as [fx0 subs macs params cret hstart]. cbn in Hfx, Hpar, Hmacs, Hsubs. subst fx0 params.
   match goal with |- exists pv st', ?f = OK (IPure pv, st') /\ _ =>
     destruct (exists_forall_swap (match f with OK (IPure p, s) => OK (p, s) | OK _ => Err "" | Err m => Err m end)
@@ -2923,17 +3244,17 @@ Proof.
             cs' = cs /\ agrees pv cv ilv)) ([], [])) as [pv [st' [L H]]]
   end.
   - intros [R rem]. cbn [fst snd].
-    destruct (expr_inv subs macs cret hstart Hmacs Hsubs rw R rem IM E csub Hcsub xi V e Hfrag V st (vext_refl V) Hok) as [pv [st' [L [S [K [G [_ [_ Hsem]]]]]]]].
+    destruct (expr_inv subs macs cret hstart Hmacs Hsubs rw R rem IM E csub Hcsub xi Hxi V e Hfrag V st (vext_refl V) Hok) as [pv [st' [L [S [K [G [_ [_ Hsem]]]]]]]].
     exists pv, st'. split; [rewrite L; reflexivity|]. split; [exact S|]. split; [exact K|].
     intros HR Hrem cs ms Hrel Himm. destruct (Hsem HR Hrem cs ms Hrel Himm) as [ilv [[He Hs] Hc]].
     exists ilv. split; [exact He|].
     destruct G as [[Ht Hk] | [sg [w [Hw [Ht Hk]]]]].
     + unfold shape_pv, shape in *. rewrite Ht in *. cbn [vt_bool ty_bool] in *. destruct Hs as [b ->]. split; [eauto|].
       intros fuel cs' cv H1 H2. destruct (Hc fuel cs' cv H1 H2) as [-> ->]. split; reflexivity.
-    + unfold shape_pv, shape in *. rewrite Ht in *. cbn [vt_bool vt_w vt_sg ty_int] in *. destruct Hs as [z [-> Hz]].
-      split; [exists z; auto|].
+    + destruct (ity_inv _ _ _ Ht) as [h0 Et]. unfold shape_pv, shape in *. rewrite Et in *. cbn [vt_bool vt_w vt_sg ty_h] in *. destruct Hs as [z [-> Hz]].
+      split; [exists z; split; [reflexivity|]; split; [exact Hz|]; split; [apply ity_h | exact Hw]|].
       intros fuel cs' cv H1 H2. destruct (Hc fuel cs' cv H1 H2) as [-> ->]. split; [reflexivity|].
-      unfold agrees. rewrite Ht. reflexivity.
+      unfold agrees. rewrite Et. reflexivity.
   - exists pv, st'. destruct (H ([], [])) as [S [K _]].
     split; [|split; [exact S|split; [exact K|intros R rem; apply (H (R, rem))]]].
     destruct (lower_expr _ e st) as [[[] s]|]; try discriminate L. injection L as -> ->. reflexivity.
@@ -2942,7 +3263,7 @@ Print Assumptions expr_correct.
 
 
 Theorem expr_correct_unconditional : forall (cfg : config) (rw : regwidth) (IM : string -> bool) (E : cenv) (csub : csubs) xi V e st,
-  cfg_fx cfg = all_fixes -> cfg_params cfg = [] -> macs_std (cfg_macros cfg) -> subs_ext (cfg_subs cfg) -> csub_ext csub ->
+  cfg_fx cfg = all_fixes -> cfg_params cfg = [] -> macs_std (cfg_macros cfg) -> subs_ext (cfg_subs cfg) -> csub_ext csub -> xi_ok xi ->
   lst_ok IM V st -> pfrag rw IM V e ->
   exists pv st', lower_expr cfg e st = OK (IPure pv, st') /\ st_ext st st' /\ lst_ok IM V st' /\
     forall R rem, regs_le (st_regs st') R -> norem rem ->
@@ -2950,8 +3271,8 @@ Theorem expr_correct_unconditional : forall (cfg : config) (rw : regwidth) (IM :
       exists ilv, eval rw ms [] (fin_pure R rem (pv_term pv)) = Some ilv /\ shape_pv pv ilv /\
         forall fuel cs' cv, ceval E csub xi fuel cs e = Some (cs', cv) -> cs' = cs /\ agrees pv cv ilv.
 Proof.
-  intros cfg rw IM E csub xi V e st Hfx Hpar Hmacs Hsubs Hcsub Hok Hfrag.
-  destruct (expr_correct cfg rw IM E csub xi V e st Hfx Hpar Hmacs Hsubs Hcsub Hok Hfrag) as [pv [st' [L [S [K H]]]]].
+  intros cfg rw IM E csub xi V e st Hfx Hpar Hmacs Hsubs Hcsub Hxi Hok Hfrag.
+  destruct (expr_correct cfg rw IM E csub xi V e st Hfx Hpar Hmacs Hsubs Hcsub Hxi Hok Hfrag) as [pv [st' [L [S [K H]]]]].
   exists pv, st'. split; [exact L|]. split; [exact S|]. split; [exact K|].
   intros R rem HR Hrem cs ms Hrel Himm. destruct (H R rem HR Hrem cs ms Hrel Himm) as [ilv [He [Hsh Hc]]].
   exists ilv. split; [exact He|]. split; [exact Hsh|].
